@@ -55,6 +55,13 @@ run-time: lean/CsVerif/Model/PyU_T15.lean; plug-ins gen/py_scan.py, gen/py_xor.p
               `unit.t15_init_files = {attr: parameter}`: `__init__` moves the file parameter into the new instance (`_Fn.t15_analyse`)
   try         `try: … except OSError: …` with a handler that goes on (`_Fn.t15_try`); a variable that every continuing path of an
               `if` / `try` assigns and a later statement reads is declared before the statement (`_Fn.t15_stmt`)
+
+`C2Profile.from_beacon_config` (c2profile.py; run-time: lean/CsVerif/Model/PyU_T13.lean; plug-in gen/py_c2gen.py; units with `t13 = True`)
+  expressions `x is True` / `x is False`, `d.items()`, `sep.join(<generator expression>)` (translated as the list comprehension)
+  defaultdict `v = collections.defaultdict(list)` (registry kind `t13ddlist`), the statement `v[k].append(e)`, `for … in v.items():`
+              (`_Fn.t13_analyse`: no second reference to the dict or its lists)
+  mutable     a list variable may be an argument of a registered external function (assumed not to keep or change it) and may be
+              tested for truth
 """
 from __future__ import annotations
 
@@ -106,6 +113,7 @@ CALLS = "%calls"     # the hidden variable that counts the calls of a registered
 FILE_METHODS = {"read": ("PyU.fileRead", 0, 1, ["V.none"], True), "seek": ("PyU.fileSeek", 1, 2, [None, "(V.int 0)"], True),
                 "tell": ("PyU.fileTell", 0, 0, [], False)}
 YIELDS = "%yields"   # the hidden variable of a generator function: the list of the values yielded so far (Lean name `ys0`)
+RET = "%ret"         # T18: the hidden variable of `return e` inside a loop (Lean name `ret0`; see the section "T18" of `_Fn`)
 METHODS["find"] = ("PyU.find", 1, 2, [None, "V.none"])
 # -- T02 (run-time: lean/CsVerif/Model/PyU_T02.lean): `p.seek(off[, whence])` on a BytesIO variable, cstruct structures read from a
 # BytesIO variable (registry kind `struct`), attribute assignment on a fresh instance, `try … except <Builtin>: <terminating handler>`,
@@ -127,6 +135,28 @@ T17_FRESH_KINDS = ("counterctor", "bufreader")
 # with a handler that goes on, and the statements `self.a[k] = e` / `self.a[k].append(e)` on the first parameter (see `_Fn.t19_stmt`)
 DECODE[("utf-8", "ignore")] = "PyU.decodeUtf8Ignore"
 METHODS["to_bytes"] = ("PyU.toBytes", 2, 2, [])
+# -- T01 (beacon.py extraction; run-time: lean/CsVerif/Model/PyU_T01.lean; see `_Fn.t01_scan`): `b.hex()`; for units with `unit.t01 = True`:
+# dynamic dispatch of `read` / `seek` / `tell` on file parameters, handle variables, calls that are handed a file-like object,
+# `try: H = <detector>(F); … except ValueError: …`, and an f-string field without conversion prints a list / tuple / bytes value by `repr`
+METHODS["hex"] = ("PyU.t01Hex", 0, 0, [])
+# -- T07 (c2.py: decrypt_metadata / encrypt_metadata, C2Http; run-time: lean/CsVerif/Model/PyU_T07.lean; see the section "T07" of `_Fn`):
+# cstruct structures parsed from `bytes` (registry kind `t07struct`), IN-OUT parameters (`unit.t07_inout`: an object of the caller that
+# the function changes by `p.a = e`; the definition answers `(result, p afterwards)`; `len(p)` / `p.dumps()` know the registered
+# structure classes `unit.t07_structs` and can raise `struct.error`: monad `PyU.T07PyE`), constructors of external immutable objects
+# whose methods are external functions (kind `t07ctor`, e.g. `PKCS1_v1_5.new(key)`), the format spec `0<w>x`
+# -- T11 (c2profile.py: C2Profile.as_dict, the block builders; run-time: lean/CsVerif/Model/PyU_T11.lean; see the section "T11" of `_Fn`;
+# all of it is active only for a unit with `unit.t11 = <Lean term of the class descriptor of lark.Token>`): `lark.Token` is a `str`
+# (`==`, `in`, `join`, `str`, `tuple`, `repr` see the text a Token carries), `xs.pop()` / `xs.extend(ys)` on a list variable,
+# `collections.defaultdict(list)` (registry kind `t11ddlist`) with the statement `d[k].append(e)` and `dict(d)`, `tuple(<generator
+# expression>)`, constructors of plain record classes (kind `t11cls`), `hash(x)` as the external function registered as `%hash`, and a
+# variable that is re-used for a temporary list is split in two (`_t11_split_temp`)
+MUTATORS["pop"] = 0
+MUTATORS["extend"] = 1
+T11_FRESH_KINDS = ("t11ddlist",)
+# -- T13 (c2profile.py `C2Profile.from_beacon_config`; run-time: lean/CsVerif/Model/PyU_T13.lean; all of it is active only for a unit with
+# `t13 = True`; see the section "T13" of `_Fn`): `x is True` / `x is False`, `d.items()`, `sep.join(<generator expression>)`,
+# `collections.defaultdict(list)` variables (registry kind `t13ddlist`: `v[k].append(e)`, `for … in v.items():`), a mutable variable as
+# an argument of an external function / in a truth test
 
 
 def lname(n: str) -> str:
@@ -136,6 +166,8 @@ def lname(n: str) -> str:
         return "t0"
     if n == YIELDS:
         return "ys0"
+    if n == RET:
+        return "ret0"
     if re.fullmatch(r"t\d+", n) or n.endswith("_") and n[:-1] in LEAN_RESERVED:
         raise Unsupported(f"variable name {n} clashes with the translator's own names")
     return n + "_" if n in LEAN_RESERVED else n
@@ -255,6 +287,11 @@ class Unit:
             if kind in ("extern", "stream") and term[0] == name:
                 n = term[1] + len(term[2]) if kind == "extern" else term[1] + 1
                 return " → ".join(["V"] * n + ["Py V"])
+        for _, kind, term in self.registry.values():
+            if kind == "t01xff" and term == name:         # T01: the detector `XorEncodedFile.from_file`, reified (see `_Fn.t01_stmt`)
+                return "V → Py V"
+            if kind in ("t01fileext", "t01ctor") and term[0] == name:  # T01: an external function that is handed a file-like object first /
+                return " → ".join(["V"] * term[1] + ["Py V"])           #      an external constructor
         raise Unsupported(f"unknown extern {name}")
 
     def translate(self, fn, lean_name=None, init_of=None, files=(), method_of=None):
@@ -274,12 +311,23 @@ class Unit:
         if len(mod.body) != 1 or not isinstance(mod.body[0], ast.FunctionDef):
             raise Unsupported(f"cannot isolate the definition of {fn!r}")
         fd = mod.body[0]
+        if getattr(self, "t01_rewrite", None) is not None:
+            fd = self.t01_rewrite(fd, fn.__globals__)                   # T01: the plug-in's desugaring (first-yield form, see gen/py_extractu.py)
+            if not isinstance(fd, ast.FunctionDef):
+                raise Unsupported("t01_rewrite did not answer a function definition")
+        if getattr(self, "t18_classmethods", False) and [ast.unparse(d) for d in fd.decorator_list] == ["classmethod"] \
+                and fn.__globals__.get("classmethod", builtins.classmethod) is builtins.classmethod:
+            fd.decorator_list = []       # T18: the plug-in passes the `__func__` of a classmethod object; `cls` is an ordinary parameter
         if fd.decorator_list and not (getattr(self, "t02_property_getters", False) and [ast.unparse(d) for d in fd.decorator_list] == ["property"]
                                       and fn.__globals__.get("property", builtins.property) is builtins.property):
             # T02: the plug-in passes the `fget` of a read-only `property` object; the translation is the getter as a function of `self`
             raise Unsupported(f"{fd.name}: decorators")
         if getattr(self, "t17", False):
             fd = _t17_desugar_iter(fd, fn.__globals__, list(files))     # T17: `for x in iter(functools.partial(f.read, n), <literal>)`
+        if getattr(self, "t07", False):
+            fd = _t07_desugar(fd, fn.__globals__, self)                 # T07: `tuple(<generator expression>)` = `tuple([<list comprehension>])`, …
+        if getattr(self, "t11", None):
+            fd = _t11_split_temp(fd)                                    # T11: a variable re-used for a temporary list is split in two
         a = fd.args
         if a.vararg or a.kwarg or a.posonlyargs or a.kwonlyargs:
             raise Unsupported(f"{fd.name}: *args / **kwargs / positional-only / keyword-only parameters")
@@ -327,10 +375,16 @@ class Unit:
         sig.files, sig.is_gen = list(tr.files), tr.is_gen
         sig.fobj = tr.fobj[0] if tr.fobj is not None else None
         sig.stops, sig.mutates, sig.returns_self = tr.stops, tr.mutates, tr.returns_self
+        sig.t11_selfmode = tr.t11_self()[0] if tr.t11_self() is not None else None      # T11: answers `(result, self afterwards)`
         self.sigs[f"{method_of}.{fd.name}" if method_of else key] = sig
         self.init_fields = init_attrs
         monad = "PyU.PyA" if sig.asserts else ("PyU.PyS" if sig.stops else "Py")
         exc_wrap = "PyU.ExcA.py" if sig.asserts else ("PyU.ExcS.py" if sig.stops else None)
+        sig.t07_serr, sig.t07_inout = getattr(tr, "t07_serr", False), list(getattr(tr, "t07_inout_params", ()))
+        if sig.t07_serr:                   # T07: `len(p)` / `p.dumps()` of a cstruct structure can raise `struct.error`
+            if monad != "Py":
+                raise Unsupported(f"{fd.name}: struct.error together with assert / StopIteration")
+            monad, exc_wrap = "PyU.T07PyE", "PyU.T07Exc.py"
         xb = "".join(f" ({e} : {self.extern_type(e)})" for e in sig.externs)
         xa = "".join(f" {e}" for e in sig.externs)
 
@@ -405,6 +459,67 @@ def _t15_move_file_attr(fd, attr, par):
     return fd
 
 
+def _t07_desugar(fd, globs, unit=None):
+    """T07: `tuple(e for x in it if c)` / `list(…)` with the builtin `tuple` / `list` and no other argument builds the same object as
+    `tuple([e for x in it if c])` (the generator expression is consumed completely, in order, before anything else happens; an
+    exception of `e` / `c` / `it` propagates at the same point).
+    `for x in v.m(): body` for a variable `v` and a GENERATOR METHOD `m` registered in `unit.t07_genmethods` (an external function
+    that answers the tuple `(items yielded, the exception that ended the generator or None)`) becomes
+        g = t07_extgen("m", v);  for x in g[0]: body;  t07_reraise(g[1])
+    — exact when the body cannot influence the generator (it only reads `v`, which the generator does not change) and leaves the
+    loop by no `break` / `return`: the items are processed in order and an exception of the generator surfaces after the last item.
+    `f(a, k=b, **v._asdict())` for a function registered with kind `t07starfunc` becomes `f(a, k=b, t07_star=v)`."""
+    stored = {n.id for n in ast.walk(fd) if isinstance(n, ast.Name) and not isinstance(n.ctx, ast.Load)} | {a.arg for a in fd.args.args}
+    genmethods = getattr(unit, "t07_genmethods", None) or {}
+    registry = getattr(unit, "registry", None) or {}
+    counter = [0]
+
+    class R(ast.NodeTransformer):
+        def visit_For(self, st):
+            self.generic_visit(st)
+            it = st.iter
+            if not (isinstance(it, ast.Call) and isinstance(it.func, ast.Attribute) and it.func.attr in genmethods
+                    and isinstance(it.func.value, ast.Name) and not it.args and not it.keywords):
+                return st
+            v = it.func.value.id
+            if st.orelse or any(isinstance(m, (ast.Break, ast.Return)) for b in st.body for m in ast.walk(b)) \
+                    or any(isinstance(m, ast.Name) and m.id == v and not isinstance(m.ctx, ast.Load) for b in st.body for m in ast.walk(b)) \
+                    or {"t07_extgen", "t07_reraise"} & stored:
+                raise Unsupported(f"{fd.name}: `for … in {v}.{it.func.attr}()` with else / break / return / an assignment of {v}")
+            counter[0] += 1
+            g = f"t07g{counter[0]}"
+            if g in stored:
+                raise Unsupported(f"{fd.name}: variable name {g} clashes with the translator's own names")
+            mk = ast.Assign(targets=[ast.Name(id=g, ctx=ast.Store())],
+                            value=ast.Call(func=ast.Name(id="t07_extgen", ctx=ast.Load()),
+                                           args=[ast.Constant(value=it.func.attr), ast.Name(id=v, ctx=ast.Load())], keywords=[]))
+            st.iter = ast.Subscript(value=ast.Name(id=g, ctx=ast.Load()), slice=ast.Constant(value=0), ctx=ast.Load())
+            after = ast.Expr(value=ast.Call(func=ast.Name(id="t07_reraise", ctx=ast.Load()),
+                                            args=[ast.Subscript(value=ast.Name(id=g, ctx=ast.Load()), slice=ast.Constant(value=1), ctx=ast.Load())],
+                                            keywords=[]))
+            return [ast.copy_location(mk, st), st, ast.copy_location(after, st)]
+
+        def visit_Call(self, n):
+            self.generic_visit(n)
+            if (isinstance(n.func, (ast.Name, ast.Attribute)) and (registry.get(ast.unparse(n.func)) or (None, None))[1] == "t07starfunc"
+                    and any(k.arg is None for k in n.keywords)):
+                stars = [k for k in n.keywords if k.arg is None]
+                sv = stars[0].value
+                if not (len(stars) == 1 and isinstance(sv, ast.Call) and isinstance(sv.func, ast.Attribute) and sv.func.attr == "_asdict"
+                        and isinstance(sv.func.value, ast.Name) and not sv.args and not sv.keywords and n.keywords[-1] is stars[0]):
+                    raise Unsupported(f"{fd.name}: `**` other than a trailing `**<variable>._asdict()`")
+                stars[0].arg, stars[0].value = "t07_star", sv.func.value
+                return n
+            if (isinstance(n.func, ast.Name) and n.func.id in ("tuple", "list") and n.func.id not in stored and not n.keywords
+                    and len(n.args) == 1 and isinstance(n.args[0], ast.GeneratorExp)
+                    and globs.get(n.func.id, getattr(builtins, n.func.id)) is getattr(builtins, n.func.id)):
+                g = n.args[0]
+                n.args = [ast.copy_location(ast.ListComp(elt=g.elt, generators=g.generators), g)]
+            return n
+
+    return ast.fix_missing_locations(R().visit(fd))
+
+
 def _t17_desugar_iter(fd, globs, files):
     """T17: `for x in iter(functools.partial(f.read, n), s): body` for a file parameter `f`, a size `n` that is an int literal or a
     dotted global name (e.g. `io.DEFAULT_BUFFER_SIZE`, read once per call in the translation), a literal sentinel `s` and a plain
@@ -453,6 +568,72 @@ def _t17_desugar_iter(fd, globs, files):
     return ast.fix_missing_locations(R().visit(fd))
 
 
+def _t11_split_temp(fd):
+    """T11: a variable that is RE-USED for a temporary list is split in two.  In one block, `v = [<display>]` (statement i, the display
+    does not mention `v`) … `v = e` (statement j, the first later statement of the same block that assigns `v` by a plain assignment
+    at the top level of the block), where `v` is the receiver of a mutating list method in between: every occurrence of `v` in the
+    statements i … j-1 and in the right-hand side `e` of j is renamed to `v__<k>`.  Meaning-preserving because a block is only ever
+    entered at its first statement and (required here) the statements i+1 … j-1 contain no `break` / `continue` / `return`, the
+    function contains no `try` and no nested scope that mentions `v`: every use of `v` inside the region sees an assignment made
+    inside the region, and every use outside sees the assignment j or a later one.  Done only when `v` is assigned outside the
+    region as well (otherwise nothing is gained).  The new variable is an ordinary mutable variable (always bound to a fresh
+    list); the old one is never changed in place any more."""
+    params = {a.arg for a in fd.args.args}
+    names = {n.id for n in ast.walk(fd) if isinstance(n, ast.Name)} | params
+    if any(isinstance(n, (ast.Try, ast.Global, ast.Nonlocal, ast.Delete)) for n in ast.walk(fd)):
+        return fd
+    scoped = set()      # names mentioned inside nested scopes / bound by comprehensions: never split
+    for n in ast.walk(fd):
+        if n is not fd and isinstance(n, (ast.FunctionDef, ast.AsyncFunctionDef, ast.Lambda, ast.ClassDef)):
+            scoped |= {m.id for m in ast.walk(n) if isinstance(m, ast.Name)}
+        if isinstance(n, ast.comprehension):
+            scoped |= {m.id for m in ast.walk(n.target) if isinstance(m, ast.Name)}
+    counter = [0]
+
+    def top_assign(st, v):
+        return isinstance(st, ast.Assign) and len(st.targets) == 1 and isinstance(st.targets[0], ast.Name) and st.targets[0].id == v
+
+    def rename(node, v, new):
+        for m in ast.walk(node):
+            if isinstance(m, ast.Name) and m.id == v:
+                m.id = new
+
+    def visit_block(stmts):
+        i = 0
+        while i < len(stmts):
+            st = stmts[i]
+            if (isinstance(st, ast.Assign) and len(st.targets) == 1 and isinstance(st.targets[0], ast.Name) and isinstance(st.value, ast.List)):
+                v = st.targets[0].id
+                js = [j for j in range(i + 1, len(stmts)) if top_assign(stmts[j], v)]
+                if js and v not in params and v not in scoped and not any(isinstance(m, ast.Name) and m.id == v for m in ast.walk(st.value)):
+                    j = js[0]
+                    region = stmts[i + 1:j]
+                    mutated = any(isinstance(m, ast.Call) and isinstance(m.func, ast.Attribute) and m.func.attr in MUTATORS
+                                  and isinstance(m.func.value, ast.Name) and m.func.value.id == v for s in region for m in ast.walk(s))
+                    jumps = any(isinstance(m, (ast.Break, ast.Continue, ast.Return)) for s in region for m in ast.walk(s))
+                    inside = {id(m) for s in stmts[i:j] for m in ast.walk(s)} | {id(m) for m in ast.walk(stmts[j].value)}
+                    outside = any(isinstance(m, ast.Name) and m.id == v and isinstance(m.ctx, ast.Store) and id(m) not in inside
+                                  for m in ast.walk(fd))
+                    if mutated and not jumps and outside:
+                        counter[0] += 1
+                        new = f"{v}__{counter[0]}"
+                        while new in names:
+                            counter[0] += 1
+                            new = f"{v}__{counter[0]}"
+                        names.add(new)
+                        for s in stmts[i:j]:
+                            rename(s, v, new)
+                        rename(stmts[j].value, v, new)
+            for fld in ("body", "orelse"):
+                sub = getattr(st, fld, None)
+                if isinstance(sub, list) and sub and isinstance(sub[0], ast.stmt):
+                    visit_block(sub)
+            i += 1
+
+    visit_block(fd.body)
+    return ast.fix_missing_locations(fd)
+
+
 class _Fn:
     def __init__(self, unit: Unit, fd: ast.FunctionDef, globs: dict, params: list, init=None):
         self.init = init                             # (Lean term of the class descriptor, attribute names) for `__init__`
@@ -496,11 +677,16 @@ class _Fn:
                                               ast.YieldFrom, ast.Await, ast.With, ast.Delete, ast.Starred)):
                 if isinstance(n, ast.GeneratorExp) and self.t17_genexp_ok(n):
                     continue       # T17: the argument of the statement `<counter>.update(<generator expression>)`
+                if isinstance(n, ast.GeneratorExp) and self.t11_genexp_ok(n):
+                    continue       # T11: the argument of `tuple(<generator expression>)`
+                if isinstance(n, ast.GeneratorExp) and self.t13_genexp_ok(n):
+                    continue       # T13: the argument of `sep.join(<generator expression>)`
                 raise self.bad(f"construct {type(n).__name__}")
         self.analyse_files_and_yields()
         self.local = set()
         self.assigned = {v for v in self.stores_in([fd]) if v != CALLS}
         self.assigned.discard(YIELDS)
+        self.assigned.discard(RET)
         self.local = self.assigned | set(self.params) | comp_targets(fd)
         self.asserts = any(isinstance(n, ast.Assert) for n in ast.walk(fd))
         self.uses_calls = any(isinstance(n, ast.Call) and self.global_kind(n.func) == "stream" for n in ast.walk(fd))
@@ -524,12 +710,20 @@ class _Fn:
                 recv = None        # T02: a parameter the plug-in declared as holding an object of the caller (`Unit.owned_params`)
             if recv is not None and self.t19_item_store(n) is not None:
                 recv = None        # T19: `self.a[k] = e` / `self.a[k].append(e)` on the first parameter (checked by `t19_analyse`)
+            if recv is not None and self.t07_item_store(n) is not None:
+                recv = None        # T07: `p.a[k] = e` on an in-out parameter (checked by `t07_mutables`)
+            if recv is not None and self.t11_special_store(n) is not None:
+                recv = None        # T11: `d[k].append(e)` on a defaultdict variable / `self.a.b.append(e)` (checked by `t11_mutables`)
+            if recv is not None and self.t13_dd_append(n) is not None:
+                recv = None        # T13: `v[k].append(e)` on a `collections.defaultdict(list)` variable (checked by `t13_analyse`)
             if recv is not None:
                 if not isinstance(recv, ast.Name) or recv.id not in self.assigned or recv.id in self.params:
                     raise self.bad(f"{what} on something that is not a local variable bound to a fresh object")
                 self.mutable.add(recv.id)
         self.mutable |= self.t02_mutables()
         self.mutable |= self.t17_mutables()
+        self.mutable |= self.t11_mutables()
+        self.mutable |= self.t07_mutables()
         allowed = set()
         self.borrows = {}      # mutable variable -> (owner variable, attribute, the assignment statement)
         for n in ast.walk(fd):
@@ -559,11 +753,16 @@ class _Fn:
         allowed |= self.t12_allowed()
         allowed |= self.t17_allowed()
         allowed |= self.t19_allowed()
+        allowed |= self.t11_allowed()
+        allowed |= self.t07_allowed()
+        allowed |= self.t13_allowed()
         for n in ast.walk(fd):
             if isinstance(n, ast.Name) and n.id in self.mutable and id(n) not in allowed:
                 raise self.bad(f"mutable variable {n.id} is used where a second reference to the object could be created")
         self.analyse_objects()
         self.t19_analyse()
+        self.t18_checks()
+        self.t13_analyse()
 
     def analyse_files_and_yields(self):
         """`yield` only as the statement `yield e` (then the function is a generator: no `return e`, no `assert`, not `__init__`);
@@ -589,6 +788,8 @@ class _Fn:
                     and n.func.value.id in self.files and n.func.attr in FILE_METHODS and not n.keywords):
                 receivers.add(id(n.func.value))
         receivers |= self.t17_file_uses()
+        receivers |= self.t18_file_uses()
+        receivers |= self.t01_file_uses()      # T01: handles, calls that are handed a file-like object
         for n in ast.walk(fd):
             if isinstance(n, ast.Name) and n.id in self.files and (id(n) not in receivers or not isinstance(n.ctx, ast.Load)):
                 raise self.bad(f"file parameter {n.id} is used other than as the receiver of .read(n) / .seek(off[, whence]) / .tell()")
@@ -849,7 +1050,13 @@ class _Fn:
                 out.add(CALLS)
             if self.t19_item_store(n) is not None:
                 out.add(self.params[0])        # T19: `self.a[k] = e` / `self.a[k].append(e)` changes the (threaded) first parameter
+            if self.t07_item_store(n) is not None:
+                out.add(self.t07_item_store(n)[0])     # T07: `p.a[k] = e` changes the in-out parameter `p`
             out.update(self.t17_stores(n))     # T17: `<counter>.update(…)`, a file parameter handed to an external generator function
+            out.update(self.t11_stores(n))     # T11: `d[k].append(e)` changes the defaultdict variable `d`, `self.a.b.append(e)` changes `self`
+            out.update(self.t18_stores(n))     # T18: `Type(fh)`, a file parameter handed to a translated function, `return` inside a loop
+            out.update(self.t01_stores(n))     # T01: an operation on a handle / a call that is handed a file-like object changes the file
+            out.update(self.t13_stores(n))     # T13: `v[k].append(e)` changes the defaultdict variable `v`
             for c in ast.iter_child_nodes(n):
                 visit(c)
 
@@ -867,6 +1074,10 @@ class _Fn:
             return True
         if isinstance(v, ast.ListComp):
             return True
+        if isinstance(v, ast.Call) and self.global_kind(v.func) in T11_FRESH_KINDS:
+            return True        # T11: `collections.defaultdict(list)`
+        if isinstance(v, ast.Call) and self.global_kind(v.func) == "t01ctor":
+            return True        # T01: an external constructor (a new instance that nothing else refers to)
         return isinstance(v, ast.Call) and self.global_kind(v.func) in ("bytesio", "struct", "dictctor") + T17_FRESH_KINDS
 
     def use_extern(self, name):
@@ -902,6 +1113,9 @@ class _Fn:
     # ---- expressions: (prelude lines, term of type V) ------------------------------------------------------------------
     def expr(self, n, ind) -> tuple[list, str]:
         P = " " * ind
+        t18 = self.t18_expr(n, ind)              # T18: `[Type(fh) for _ in range(e)]`
+        if t18 is not None:
+            return t18
         if isinstance(n, ast.Constant):
             return [], const_term(n.value)
         if isinstance(n, ast.Name):
@@ -989,6 +1203,9 @@ class _Fn:
             t02 = self.t02_property(n, ind)
             if t02 is not None:
                 return t02
+            t11 = self.t11_attr(n, ind)             # T11: `self.a` in a self-mode function (any listed attribute)
+            if t11 is not None:
+                return t11
             if self.global_kind(n.value) == "enum":
                 if n.attr not in getattr(self.u.registry[self.dotted(n.value)][0], "__members__", {}):
                     raise self.bad(f"{ast.unparse(n)} is not a member of the enum")
@@ -1013,6 +1230,8 @@ class _Fn:
             return self.dictcomp(n, ind)
         if isinstance(n, ast.ListComp):
             return self.listcomp(n, ind)
+        if isinstance(n, ast.GeneratorExp) and self.t13_genexp_ok(n):
+            return self.listcomp(n, ind)     # T13: `sep.join(e for x in it if c)` — `join` materialises the items first
         raise self.bad(f"expression {type(n).__name__}: {ast.unparse(n)[:60]}")
 
     def bind_target(self, target, term, ind) -> list:
@@ -1122,17 +1341,21 @@ class _Fn:
                     terms.append(f"PyU.cps {lean_string(part)}")
             else:
                 node, spec = part
-                if spec not in ("", "x", "!r"):
+                if spec not in ("", "x", "!r") and not self.t07_spec(spec):
                     raise self.bad(f"format spec {spec!r}")
                 p, v = self.expr(node, ind)
                 t = self.fresh()
                 pre += p
                 if spec == "!r":
-                    op = f"PyU.fmtR {v}"
+                    op = f"PyU.t07ReprText {v}" if getattr(self, "t07_discard", False) else f"PyU.fmtR {v}"
                 elif spec == "" and isinstance(node, (ast.Tuple, ast.List)):
                     op = f"PyU.fmtS {v}"        # `str()` of a tuple / list display is its `repr`
+                elif self.t07_spec(spec):
+                    op = "PyU.t07FmtAltHex " + v if spec == "#x" else f"PyU.t07FmtZeroHex {v} {int(spec[1:-1])}"      # T07: `{v:#x}`, `{v:08x}`
                 else:
                     op = f"PyU.fmt {v} {lean_string(spec)}"
+                    if spec == "" and self.t01_on():
+                        op = f"PyU.fmtS {v}"       # T01: `str()` of a list / tuple / bytes value is its `repr` (else `PyU.fmt`)
                 (fmts if args_first else pre).append(f"{P}let {t} ← {op}")
                 terms.append(t)
         return pre + fmts, "(V.str (" + (" ++ ".join(terms) if terms else "[]") + "))"
@@ -1194,12 +1417,27 @@ class _Fn:
         if any(k.arg is None for k in n.keywords):
             raise self.bad(f"**kwargs in {ast.unparse(n)[:60]}")
         entry = self.global_entry(f)
+        t18 = self.t18_call(n, entry, ind)
+        if t18 is not None:
+            return t18
         t02 = self.t02_call(n, entry, ind)
         if t02 is not None:
             return t02
+        t01 = self.t01_call(n, entry, ind)
+        if t01 is not None:
+            return t01
         t17 = self.t17_call(n, entry, ind)
         if t17 is not None:
             return t17
+        t11 = self.t11_call(n, entry, ind)
+        if t11 is not None:
+            return t11
+        t07 = self.t07_call(n, entry, ind)
+        if t07 is not None:
+            return t07
+        t13 = self.t13_call(n, entry, ind)
+        if t13 is not None:
+            return t13
         if entry is not None and entry[0] == "intenum":      # T19: a Python `enum.IntEnum` class called with one argument
             if len(n.args) != 1 or n.keywords:
                 raise self.bad(f"{ast.unparse(f)} (an IntEnum class) called with other than one positional argument")
@@ -1432,15 +1670,22 @@ class _Fn:
             p, c = self.cond(n.operand, ind)
             return p, f"(!{c})"
         if isinstance(n, ast.Compare):
+            if len(n.ops) == 2 and self.t18_on():
+                return self.t18_chain(n, ind)
             if len(n.ops) != 1:
                 raise self.bad("chained comparison")
             op, rhs = n.ops[0], n.comparators[0]
             pa, a = self.expr(n.left, ind)
             if isinstance(op, (ast.Is, ast.IsNot)):
+                if getattr(self.u, "t13", False) and isinstance(rhs, ast.Constant) and isinstance(rhs.value, bool):
+                    t = f"(PyU.t13IsBool {a} {'true' if rhs.value else 'false'})"      # T13: `x is True` / `x is False`
+                    return pa, (t if isinstance(op, ast.Is) else f"(!{t})")
                 if not (isinstance(rhs, ast.Constant) and rhs.value is None):
                     raise self.bad("`is` with something other than None")
                 return pa, (f"(PyU.isNone {a})" if isinstance(op, ast.Is) else f"(!(PyU.isNone {a}))")
             pb, b = self.expr(rhs, ind)
+            if getattr(self.u, "t11", None) and isinstance(op, (ast.Eq, ast.NotEq, ast.In, ast.NotIn)):
+                return self.t11_compare(op, pa + pb, a, b, ind)      # T11: a `lark.Token` is compared as the `str` it is
             if isinstance(op, (ast.Eq, ast.NotEq)):
                 return pa + pb, (f"(PyU.eq {a} {b})" if isinstance(op, ast.Eq) else f"(!(PyU.eq {a} {b}))")
             t = self.fresh()
@@ -1496,14 +1741,36 @@ class _Fn:
                 continue  # docstring
             if isinstance(st, ast.Pass):
                 continue
+            t13 = self.t13_stmt(st, ind)         # T13: `v[k].append(e)` on a `collections.defaultdict(list)` variable
+            if t13 is not None:
+                out += t13
+                continue
+            t18 = self.t18_stmt(st, ind, stmts)  # T18: `return` inside a loop, `try … except EOFError`, hoisted `if` variables
+            if t18 is not None:
+                out += t18[0]
+                term = t18[1]
+                continue
+            t07 = self.t07_stmt(st, ind)         # T07: `p.a[k] = e` on an in-out parameter
+            if t07 is not None:
+                out += t07
+                continue
             t19 = self.t19_stmt(st, ind, stmts)  # T19: `self.a[k] = e` / `self.a[k].append(e)`, `try … except <Builtin>` with a handler that goes on
             if t19 is not None:
                 out += t19[0]
                 term = t19[1]
                 continue
+            t01 = self.t01_stmt(st, ind)         # T01: `H = F` for a handle, `try: H = <detector>(F); … except ValueError: …`
+            if t01 is not None:
+                out += t01[0]
+                term = t01[1]
+                continue
             t17 = self.t17_stmt(st, ind)         # T17: `<counter>.update(<generator expression>)`
             if t17 is not None:
                 out += t17
+                continue
+            t11 = self.t11_stmt(st, ind)         # T11: `d[k].append(e)` on a defaultdict variable, `xs.extend(e)`, `self.a.b.append(e)`
+            if t11 is not None:
+                out += t11
                 continue
             t15 = self.t15_stmt(st, ind, stmts)  # T15: `try … except OSError` with a handler that goes on, hoisted `if` variables
             if t15 is not None:
@@ -1549,15 +1816,16 @@ class _Fn:
                 if isinstance(exc, ast.Call):
                     if exc.keywords:
                         raise self.bad("keyword arguments of an exception")
-                    p, _ = self.exprs(exc.args, ind)
+                    p, _ = self.t07_discarded(exc.args, ind)     # (T07: the message is discarded, see `t07_discarded`)
                     out += p
                 out.append(f"{P}throw «T{EXC[name]}»")
                 term = True
             elif isinstance(st, ast.Assert):
-                if st.msg is not None and not isinstance(st.msg, ast.Constant):
+                if st.msg is not None and not isinstance(st.msg, ast.Constant) and not getattr(self.u, "t07", False):
                     raise self.bad("assert with a computed message")
                 p, c = self.cond(st.test, ind)
-                out += p + [f"{P}if (!{c}) then", f"{P}  throw PyU.ExcA.assertion"]
+                pm = self.t07_discarded([st.msg], ind + 2)[0] if st.msg is not None and not isinstance(st.msg, ast.Constant) else []
+                out += p + [f"{P}if (!{c}) then"] + pm + [f"{P}  throw PyU.ExcA.assertion"]     # (T07: a computed message is evaluated first)
             elif isinstance(st, ast.Break) or isinstance(st, ast.Continue):
                 if self.in_loop is None:
                     raise self.bad("break / continue outside a loop")
@@ -1848,6 +2116,8 @@ class _Fn:
         if self.mutates:       # a method that assigns attributes: (result, `self` afterwards)
             return f"(V.tuple [{t}, {lname(self.params[0])}])"
         objs = list(self.files) + ([self.fobj[0]] if self.fobj is not None else [])     # T15: + the `self` that owns files
+        objs += list(getattr(self, "t07_inout_params", ()))                             # T07: + the in-out parameters
+        objs += [self.t11_self()[0]] if self.t11_self() is not None else []             # T11: + the `self` of a self-mode function
         return f"(V.tuple [{', '.join([t] + [lname(f) for f in objs])}])" if objs else t
 
     def expr_read(self, n, ind):
@@ -1896,6 +2166,10 @@ class _Fn:
         state = [v for v in self.declared if v in stored]
         captured = [v for v in self.declared if v in used and v not in stored]
         inner_has_loop = any(isinstance(n, ast.While) for s in st.body for n in ast.walk(s))
+        if self.t01_on() and self.files and any(
+                isinstance(n, ast.Call) and isinstance(n.func, ast.Attribute) and n.func.attr == "read" and isinstance(n.func.value, ast.Name)
+                and (n.func.value.id in self.files or n.func.value.id in self.t01_scan()[0]) for s in st.body for n in ast.walk(s)):
+            inner_has_loop = True      # T01: `read` on a file-like object may run the translated `XorEncodedFile.read`, which takes fuel
         if is_for:
             inner_has_loop = inner_has_loop or any(isinstance(n, ast.Call) and isinstance(n.func, ast.Name) and n.func.id in self.u.sigs
                                                    and self.u.sigs[n.func.id].fuel for s in st.body for n in ast.walk(s))
@@ -2005,6 +2279,8 @@ class _Fn:
                 continue
             if isinstance(recv, ast.Name) and recv.id == self.t02_self_name():
                 continue       # `self.a = …` in a method: handled by the objects analysis
+            if isinstance(recv, ast.Name) and recv.id in self.t07_inout():
+                continue       # T07: an in-out parameter (checked by `t07_mutables`)
             ok = recv.id in self.assigned and (recv.id not in self.params or recv.id in self.t02_owned())
             if not ok:
                 raise self.bad(f"{what} {recv.id}, which is not a local variable bound to a fresh object")
@@ -2059,6 +2335,8 @@ class _Fn:
                 ok.add(id(st.value.value))
         for st in ast.walk(fd):
             if isinstance(st, ast.Try):
+                if id(st) in self.t01_scan()[1]:
+                    continue       # T01: `try: H = <detector>(F); … except ValueError: …` (see `t01_stmt`)
                 self.t02_check_try(st, parents)
         return ok
 
@@ -2085,6 +2363,8 @@ class _Fn:
           * a MUTABLE variable changed in the body (an operation that raises may leave the real object half-changed, e.g. a file
             position) is dead when the handler runs: not mentioned in the handler; and if the handler leaves a loop by `break`,
             that loop is a top-level statement of the function and the variable does not occur after it; no `continue`."""
+        if self.t18_is_eof_try(st):
+            return         # T18: `try … except EOFError` around reads from a file parameter (see `t18_try`)
         self.t02_try_excs(st)
         for b in st.body:
             for n in ast.walk(b):
@@ -2857,6 +3137,1402 @@ class _Fn:
     def t19_item_store_in(self, stmts) -> bool:
         return any(self.t19_item_store(n) is not None for b in stmts for n in ast.walk(b))
 
+    # ==== T07 (c2.py: decrypt_metadata / encrypt_metadata / C2Http; run-time: lean/CsVerif/Model/PyU_T07.lean) ====================
+    def t07_inout(self):
+        """the IN-OUT parameters of this function (`unit.t07_inout = {function name: [parameter, …]}`)"""
+        return getattr(self.u, "t07_inout", {}).get(self.fd.name, ())
+
+    def t07_spec(self, spec) -> bool:
+        """the format specs `0<w>x` (zero-filled lower-case hexadecimal of width w) and `#x`, for units with `unit.t07 = True`"""
+        return bool(getattr(self.u, "t07", False) and re.fullmatch(r"0[1-9]\d?x|#x", spec))
+
+    def t07_discarded(self, items, ind):
+        """the arguments of `raise X(…)` / the message of `assert c, msg`: evaluated for their exceptions only, the values are thrown
+        away with the exception object (message texts are never compared).  In a unit with `unit.t07 = True` a field `{v!r}` in such a
+        position is `PyU.t07ReprText` (the `repr` of kinds of objects `PyU.repr` does not model is an unspecified text, not an
+        exception — assumed: `__repr__` of the objects the function handles does not raise), and `X(args)` for a builtin exception
+        class evaluates its arguments only."""
+        if not getattr(self.u, "t07", False):
+            return self.exprs(items, ind)
+        saved = getattr(self, "t07_discard", False)
+        self.t07_discard = True
+        try:
+            return self.exprs(items, ind)
+        finally:
+            self.t07_discard = saved
+
+    def t07_mutables(self) -> set:
+        """EXTERNAL OBJECT variables: a local variable every assignment of which is `v = <ctor>(args)` for a registered constructor of
+        kind `t07ctor` (term = (Lean term of a `PyU.Cls` with one field per argument, number of arguments, {method: (extern name,
+        number of arguments)})); the object is IMMUTABLE as far as the program can tell (assumed of the registered class), so its
+        value is the instance `V.inst cls [args]` and `v.m(a, …)` is the external function `m` applied to `v` and the arguments.
+        The variable may occur only as the receiver of a registered method.
+        IN-OUT parameters (`unit.t07_inout`): the parameter holds an object OF THE CALLER that this function changes in place by
+        `p.a = e`; the object is threaded as a value and the definition answers the tuple `(result, p afterwards)` (when the function
+        raises, the state of the caller's object is not part of the answer).  Exact because the function cannot create a second
+        reference to the object: `p` occurs only as `p.a` (read / assigned by a whole statement), as `len(p)` or as `p.dumps()`.
+        `len(p)` / `p.dumps()` are `PyU.t07Len` / `PyU.t07Dumps` over the structure classes `unit.t07_structs` (a Lean term of type
+        `List PyU.T07StructCls`): they can raise `struct.error`, so the function lives in the monad `PyU.T07PyE`."""
+        fd = self.fd
+        self.t07_inout_params = list(self.t07_inout())
+        self.t07_serr = False
+        self.t07_extvars = {}
+        parents = {id(c): n for n in ast.walk(fd) for c in ast.iter_child_nodes(n)}
+        for n in ast.walk(fd):
+            # `x.m(args)` for a method `m` of a class translated by another unit (`unit.t07_methods`): it may raise AssertionError
+            if (isinstance(n, ast.Call) and isinstance(n.func, ast.Attribute) and n.func.attr in (getattr(self.u, "t07_methods", None) or {})
+                    and self.u.t07_methods[n.func.attr][4]):
+                self.asserts = True
+        for n in ast.walk(fd):
+            if isinstance(n, ast.Call) and self.global_kind(n.func) == "t07ctor":
+                par = parents.get(id(n))
+                tg = (par.targets if isinstance(par, ast.Assign) else [par.target]) if isinstance(par, (ast.Assign, ast.AnnAssign)) and par.value is n else []
+                if len(tg) != 1 or not isinstance(tg[0], ast.Name) or tg[0].id in self.params:
+                    raise self.bad(f"{ast.unparse(n)[:40]}: an external object must be bound to a local variable by `v = …`")
+                term = self.global_entry(n.func)[1]
+                if self.t07_extvars.setdefault(tg[0].id, term) is not term:
+                    raise self.bad(f"variable {tg[0].id} holds external objects of two kinds")
+        for v, term in self.t07_extvars.items():
+            for n in ast.walk(fd):
+                if not (isinstance(n, ast.Name) and n.id == v):
+                    continue
+                par = parents.get(id(n))
+                gp = parents.get(id(par))
+                if isinstance(n.ctx, ast.Store):
+                    ok = (isinstance(par, (ast.Assign, ast.AnnAssign)) and par.value is not None and isinstance(par.value, ast.Call)
+                          and self.global_kind(par.value.func) == "t07ctor" and self.global_entry(par.value.func)[1] is term)
+                else:
+                    ok = (isinstance(par, ast.Attribute) and par.value is n and par.attr in term[2] and isinstance(gp, ast.Call)
+                          and gp.func is par and not gp.keywords and len(gp.args) == term[2][par.attr][1])
+                if not ok:
+                    raise self.bad(f"external object variable {v} is used other than as the receiver of a registered method")
+            if self.in_comprehension({v}):
+                raise self.bad(f"external object variable {v} inside a comprehension")
+        inout = self.t07_inout_params
+        if not inout:
+            return set()
+        if self.init is not None or self.files or self.fobj is not None or getattr(self, "method_of", None) is not None:
+            raise self.bad("in-out parameters in `__init__` / a method / together with file parameters")
+        selfm = getattr(self.u, "t07_self_methods", None) or {}
+        for p in inout:
+            if p not in self.params:
+                raise self.bad(f"in-out parameter {p} is not a parameter")
+            for n in ast.walk(fd):
+                if not (isinstance(n, ast.Name) and n.id == p):
+                    continue
+                par = parents.get(id(n))
+                gp = parents.get(id(par))
+                ok = False
+                if isinstance(par, ast.Attribute) and par.value is n and not par.attr.startswith("_") and isinstance(n.ctx, ast.Load):
+                    if isinstance(par.ctx, ast.Load):
+                        if isinstance(gp, ast.Call) and gp.func is par and par.attr in selfm:
+                            # `p.m(args)` for a method translated before that does not change `p` (`unit.t07_self_methods`)
+                            sg = self.u.sigs.get(selfm[par.attr])
+                            ok = sg is not None and not gp.keywords and not getattr(sg, "t07_inout", None) and not sg.fuel
+                            if ok and sg.asserts:
+                                self.asserts = True
+                        elif isinstance(gp, ast.Call) and gp.func is par:
+                            ok = par.attr == "dumps" and not gp.args and not gp.keywords and getattr(self.u, "t07_structs", None) is not None
+                            self.t07_serr = self.t07_serr or ok
+                        else:
+                            ok = True
+                    else:
+                        tgt = gp.targets if isinstance(gp, ast.Assign) else ([gp.target] if isinstance(gp, (ast.AnnAssign, ast.AugAssign)) else [])
+                        ok = len(tgt) == 1 and tgt[0] is par
+                elif isinstance(par, ast.Call) and self.is_builtin(par.func, "len") and par.args == [n] and not par.keywords:
+                    ok = getattr(self.u, "t07_structs", None) is not None
+                    self.t07_serr = self.t07_serr or ok
+                if not ok:
+                    raise self.bad(f"in-out parameter {p} is used other than as {p}.a, `{p}.a = e`, len({p}), {p}.dumps()")
+            if self.in_comprehension({p}):
+                raise self.bad(f"in-out parameter {p} inside a comprehension")
+        if self.t07_serr and (self.asserts or self.is_gen or any(isinstance(n, (ast.Try, ast.While, ast.For)) for n in ast.walk(fd))):
+            raise self.bad("len(p) / p.dumps() of an in-out parameter together with assert / yield / try / a loop")
+        for n in ast.walk(fd):
+            if self.t07_item_store(n) is not None:
+                par = parents.get(id(n))
+                if not (isinstance(par, ast.Assign) and par.targets == [n]):
+                    raise self.bad("`p.a[k] = e` on an in-out parameter other than as a whole statement")
+        if any(isinstance(n, ast.Try) for n in ast.walk(fd)):
+            raise self.bad("`try` in a function with in-out parameters")
+        self.assigned |= set(inout)
+        return set(inout)
+
+    def t07_item_store(self, n):
+        """`p.a[k] = e` (the Subscript node in Store context) for an in-out parameter `p`: (p, attribute, key expression), else None"""
+        if not getattr(self.u, "t07_inout", None) or not (isinstance(n, ast.Subscript) and isinstance(n.ctx, ast.Store)):
+            return None
+        v = n.value
+        if (not isinstance(n.slice, ast.Slice) and isinstance(v, ast.Attribute) and isinstance(v.value, ast.Name)
+                and v.value.id in self.t07_inout() and not v.attr.startswith("_")):
+            return v.value.id, v.attr, n.slice
+        return None
+
+    def t07_stmt(self, st, ind):
+        """`p.a[k] = e` as a whole statement, in CPython's evaluation order (value, container, key): lines, or None"""
+        tg = st.targets[0] if isinstance(st, ast.Assign) and len(st.targets) == 1 else None
+        what = self.t07_item_store(tg) if tg is not None else None
+        if what is None:
+            return None
+        P = " " * ind
+        pn, attr, key = what
+        if pn not in self.declared or self.in_loop is not None and pn not in self.in_loop:
+            raise self.bad(f"{pn} is not bound here")
+        pv, v = self.expr(st.value, ind)
+        d, r1, r2 = self.fresh(), self.fresh(), self.fresh()
+        pk, k = self.expr(key, ind)
+        return (pv + [f"{P}let {d} ← PyU.getAttr {lname(pn)} {lean_string(attr)}"] + pk
+                + [f"{P}let {r1} ← PyU.setItem {d} {k} {v}", f"{P}let {r2} ← PyU.instSetAttr {lname(pn)} {lean_string(attr)} {r1}",
+                   f"{P}{lname(pn)} := {r2}"])
+
+    def t07_allowed(self) -> set:
+        """(the occurrences of an in-out parameter — `p.a`, `p.a = e`, `p.dumps`, `len(p)` — are already accepted by `t02_allowed` /
+        `t12_allowed`; `t07_mutables` has checked that there are no others)"""
+        return set()
+
+    def t07_call(self, n: ast.Call, entry, ind):
+        """calls of the T07 subset: (prelude, term) or None"""
+        P = " " * ind
+        f = n.func
+        if isinstance(f, ast.Name) and f.id in self.u.sigs and f.id not in self.local:
+            sg = self.u.sigs[f.id]
+            if getattr(sg, "t07_inout", None) or getattr(sg, "t07_serr", False):
+                raise self.bad(f"call of {f.id}, which has in-out parameters / can raise struct.error")
+            return None
+        t07 = bool(getattr(self.u, "t07", False))
+        if t07 and isinstance(f, ast.Name) and f.id == "t07_extgen" and f.id not in self.local and getattr(self.u, "t07_genmethods", None):
+            # (from `_t07_desugar`) the external generator method `m` of the value `v`, run to its end: `(items, exception or None)`
+            m, v = n.args[0].value, n.args[1]
+            pa, a = self.expr(v, ind)
+            name = self.u.t07_genmethods[m]
+            self.use_extern(name)
+            t = self.fresh()
+            return pa + [f"{P}let {t} ← {name} {a}"], t
+        if t07 and isinstance(f, ast.Name) and f.id == "t07_reraise" and f.id not in self.local and getattr(self.u, "t07_genmethods", None):
+            pa, a = self.expr(n.args[0], ind)
+            t = self.fresh()
+            return pa + [f"{P}let {t} ← PyU.t07Reraise {a}"], t
+        if entry is not None and entry[0] == "t07starfunc":
+            # `f(a, k=b, **v._asdict())` (desugared to the keyword `t07_star=v`): the external function gets the positional arguments,
+            # the keyword arguments in the registered order and the object whose fields are the remaining keyword arguments
+            name, npos, kwnames = entry[1]
+            kws = {k.arg: k.value for k in n.keywords}
+            if len(n.args) != npos or sorted(kws) != sorted(kwnames + ["t07_star"]):
+                raise self.bad(f"{ast.unparse(f)} is registered with {npos} positional arguments, the keywords {kwnames} and `**v._asdict()`")
+            pre, args = self.exprs(n.args, ind)
+            for kname in [k.arg for k in n.keywords]:          # evaluation order: as written
+                pk, tk = self.expr(kws[kname], ind)
+                pre += pk
+                kws[kname] = tk
+            self.use_extern(name)
+            t = self.fresh()
+            return pre + [f"{P}let {t} ← {name} {' '.join(args + [kws[x] for x in kwnames] + [kws['t07_star']])}"], t
+        selfm = getattr(self.u, "t07_self_methods", None) or {}
+        if (isinstance(f, ast.Attribute) and isinstance(f.value, ast.Name) and f.value.id in getattr(self, "t07_inout_params", ())
+                and f.attr in selfm and not n.keywords):
+            sg = self.u.sigs[selfm[f.attr]]
+            rest = sg.params[1:]
+            if len(n.args) > len(rest):
+                raise self.bad(f"too many arguments for {f.attr}")
+            pre, args = self.exprs(n.args, ind)
+            for pname, d in rest[len(args):]:
+                if d is None:
+                    raise self.bad(f"missing argument {pname} of {f.attr}")
+                args.append(d)
+            for e in sg.externs:
+                self.use_extern(e)
+            t = self.fresh()
+            return pre + [f"{P}let {t} ← {' '.join([sg.name] + list(sg.externs) + [lname(f.value.id)] + args)}"], t
+        tm = getattr(self.u, "t07_methods", None) or {}
+        if t07 and isinstance(f, ast.Attribute) and f.attr in tm and not n.keywords and self.dotted(f) is None:
+            # `x.m(args)` for a method of a class translated by another unit: term = (class descriptor, Lean name, externs, number of
+            # arguments, can raise AssertionError); an `x` that is not an instance of the class has no such method (AttributeError)
+            cls_term, name, externs, nargs, _ = tm[f.attr]
+            if len(n.args) != nargs:
+                raise self.bad(f"{f.attr} is registered with {nargs} arguments")
+            po, o = self.expr(f.value, ind)
+            pre, args = self.exprs(n.args, ind)
+            for e in externs:
+                self.use_extern(e)
+            t = self.fresh()
+            return po + pre + [f"{P}if (!(PyU.isInstance {o} [(PyU.Ty.cls {cls_term})])) then", f"{P}  throw «TPyExc.attributeError»",
+                               f"{P}let {t} ← {' '.join([name] + list(externs) + [o] + args)}"], t
+        if t07 and getattr(self, "t07_discard", False) and isinstance(f, ast.Name) and f.id in EXC and self.is_builtin(f, f.id) and not n.keywords:
+            pre, _ = self.exprs(n.args, ind)        # an exception object that is thrown away: its arguments are evaluated
+            return pre, "V.none"
+        if t07 and isinstance(f, ast.Attribute) and f.attr == "startswith" and len(n.args) == 1 and not n.keywords and self.dotted(f) is None:
+            po, o = self.expr(f.value, ind)         # `x.startswith(prefix | tuple of prefixes)`
+            pa, a = self.expr(n.args[0], ind)
+            t = self.fresh()
+            return po + pa + [f"{P}let {t} ← PyU.t07Startswith {o} {a}"], t
+        for name, op in (("any", "PyU.t07Any"), ("all", "PyU.t07All")):
+            if t07 and self.is_builtin(f, name) and len(n.args) == 1 and not n.keywords:
+                pa, a = self.expr(n.args[0], ind)
+                t = self.fresh()
+                return pa + [f"{P}let {t} ← {op} {a}"], t
+        if entry is not None and entry[0] == "t07kwfunc":
+            # a function of another unit called with positional / keyword arguments: term = (Lean name, [parameters], {default terms})
+            name, params, defaults = entry[1]
+            if len(n.args) > len(params):
+                raise self.bad(f"too many arguments for {ast.unparse(f)}")
+            pre, args = self.exprs(n.args, ind)
+            vals = dict(zip(params, args))
+            for k in n.keywords:
+                if k.arg not in params or k.arg in vals:
+                    raise self.bad(f"{ast.unparse(f)}: unexpected / repeated argument {k.arg}")
+                pk, tk = self.expr(k.value, ind)
+                pre += pk
+                vals[k.arg] = tk
+            for p_ in params:
+                if p_ not in vals:
+                    if p_ not in defaults:
+                        raise self.bad(f"{ast.unparse(f)}: missing argument {p_}")
+                    vals[p_] = defaults[p_]
+            t = self.fresh()
+            return pre + [f"{P}let {t} ← {name} {' '.join(vals[p_] for p_ in params)}"], t
+        if entry is not None and entry[0] == "t07ctor":
+            cls_term, nargs, _ = entry[1]
+            if n.keywords or len(n.args) != nargs:
+                raise self.bad(f"{ast.unparse(f)} is registered with {nargs} positional arguments")
+            pre, args = self.exprs(n.args, ind)
+            return pre, f"(V.inst {cls_term} [{', '.join(args)}])"
+        if entry is not None and entry[0] == "t07struct":
+            if n.keywords or len(n.args) != 1:
+                raise self.bad(f"{ast.unparse(n)[:50]}: a structure class called with other than one positional argument")
+            pa, a = self.expr(n.args[0], ind)
+            t = self.fresh()
+            return pa + [f"{P}let {t} ← PyU.t07StructParse {entry[1]} {a}"], t
+        if isinstance(f, ast.Attribute) and isinstance(f.value, ast.Name) and f.value.id in getattr(self, "t07_extvars", {}):
+            v = f.value.id
+            name, npos = self.t07_extvars[v][2][f.attr]
+            if v not in self.declared:
+                raise self.bad(f"variable {v} may be used before it is assigned on this path")
+            pre, args = self.exprs(n.args, ind)
+            self.use_extern(name)
+            t = self.fresh()
+            return pre + [f"{P}let {t} ← {name} {' '.join([lname(v)] + args)}"], t
+        inout = getattr(self, "t07_inout_params", ())
+        structs = getattr(self.u, "t07_structs", None)
+        if (self.is_builtin(f, "len") and len(n.args) == 1 and not n.keywords and isinstance(n.args[0], ast.Name) and n.args[0].id in inout
+                and structs is not None):
+            t = self.fresh()
+            return [f"{P}let {t} ← PyU.t07Len {structs} {lname(n.args[0].id)}"], t
+        if (isinstance(f, ast.Attribute) and f.attr == "dumps" and isinstance(f.value, ast.Name) and f.value.id in inout and not n.args
+                and not n.keywords and structs is not None):
+            t = self.fresh()
+            return [f"{P}let {t} ← PyU.t07Dumps {structs} {lname(f.value.id)}"], t
+        return None
+
+    # ==== T01 (beacon.py: find_beacon_config_bytes / iter_beacon_config_blocks / BeaconConfig.from_file; run-time:
+    #      lean/CsVerif/Model/PyU_T01.lean; plug-in gen/py_extractu.py) — active for units with `unit.t01 = True` ======================
+    def t01_on(self) -> bool:
+        return bool(getattr(self.u, "t01", False))
+
+    def t01_kind(self, f):
+        """registry kind / term of a called name, by its spelling (usable before `self.local` exists; that the name denotes the
+        registered object is checked by `global_entry` when the call is translated)"""
+        try:
+            d = ast.unparse(f)
+        except Exception:  # noqa: BLE001
+            return None
+        ent = self.u.registry.get(d)
+        return (ent[1], ent[2]) if ent is not None else None
+
+    def t01_try_shape(self, st):
+        """`try: H = XFF(F); <rest> except ValueError: <pass | H = F>` for a registered detector `XFF` (kind `t01xff`), a file parameter
+        `F` and a plain variable `H`: (H, F, rest, handler aliases F) or None"""
+        if not (self.t01_on() and isinstance(st, ast.Try) and st.body and not st.orelse and not st.finalbody and len(st.handlers) == 1):
+            return None
+        h, first = st.handlers[0], st.body[0]
+        if not (h.name is None and isinstance(h.type, ast.Name) and h.type.id == "ValueError"
+                and self.globs.get("ValueError", builtins.ValueError) is builtins.ValueError):
+            return None
+        if not (isinstance(first, ast.Assign) and len(first.targets) == 1 and isinstance(first.targets[0], ast.Name)
+                and isinstance(first.value, ast.Call) and (self.t01_kind(first.value.func) or (None,))[0] == "t01xff"
+                and not first.value.keywords and len(first.value.args) == 1 and isinstance(first.value.args[0], ast.Name)
+                and first.value.args[0].id in self.files):
+            return None
+        H, F = first.targets[0].id, first.value.args[0].id
+        if len(h.body) == 1 and isinstance(h.body[0], ast.Pass):
+            alias = False
+        elif (len(h.body) == 1 and isinstance(h.body[0], ast.Assign) and len(h.body[0].targets) == 1 and isinstance(h.body[0].targets[0], ast.Name)
+              and h.body[0].targets[0].id == H and isinstance(h.body[0].value, ast.Name) and h.body[0].value.id == F):
+            alias = True
+        else:
+            return None
+        return H, F, st.body[1:], alias
+
+    def t01_scan(self):
+        """HANDLE variables.  A handle `H` of the file parameter `F` is a local variable every assignment of which is `H = XFF(F)` as
+        the first statement of a `try` of the shape of `t01_try_shape` (the view the detector returns: an object that refers to the
+        very file `F`), or `H = F` (the file itself).  In the translation `F` stays the one threaded file value and `H` holds the
+        handle (`PyU.t01Detach`: the view without its file, or `PyU.t01Self`); every use of `H` attaches the current `F`, runs the
+        operation and takes `F` and the handle out of the object the operation answers.  EXACT provided (assumed of the registered
+        detector) the view it returns refers to the very file object `F` and holds no state outside its own attributes and that file.
+        `H` may occur only as the receiver of `.read(n)` / `.seek(off)` / `.tell()` and as the first argument of a translated function
+        whose first parameter is a file parameter or of an external function of kind `t01fileext`; `F` in the same places, and as
+        the argument of the detector / the right-hand side of `H = F`.
+        Result (cached): ({H: F}, {id(try statement)}, {id(Name node of a file parameter in one of the additional places)})"""
+        if getattr(self, "_t01_scan", None) is not None:
+            return self._t01_scan
+        handles, tries, ok = {}, set(), set()
+        if self.t01_on() and self.files:
+            fd = self.fd
+            parents = {id(c): n for n in ast.walk(fd) for c in ast.iter_child_nodes(n)}
+            for st in ast.walk(fd):
+                sh = self.t01_try_shape(st)
+                if sh is not None:
+                    H, F, _, _ = sh
+                    if handles.setdefault(H, F) != F or H in self.params:
+                        raise self.bad(f"handle variable {H}: two files / a parameter")
+                    tries.add(id(st))
+            for st in ast.walk(fd):
+                if (isinstance(st, ast.Assign) and len(st.targets) == 1 and isinstance(st.targets[0], ast.Name) and isinstance(st.value, ast.Name)
+                        and st.value.id in self.files and st.targets[0].id not in self.params):
+                    H, F = st.targets[0].id, st.value.id
+                    if handles.setdefault(H, F) != F:
+                        raise self.bad(f"handle variable {H}: two files")
+            for n in ast.walk(fd):
+                if not (isinstance(n, ast.Name) and (n.id in handles or n.id in self.files)):
+                    continue
+                par = parents.get(id(n))
+                gp = parents.get(id(par))
+                good = False
+                if isinstance(n.ctx, ast.Store):
+                    if n.id in handles and isinstance(par, ast.Assign) and len(par.targets) == 1:
+                        v = par.value
+                        good = (isinstance(v, ast.Name) and v.id == handles[n.id]
+                                or isinstance(gp, ast.Try) and id(gp) in tries and gp.body[0] is par)
+                elif isinstance(par, ast.Attribute) and par.value is n and isinstance(gp, ast.Call) and gp.func is par:
+                    good = par.attr in ("read", "seek", "tell") and not gp.keywords and len(gp.args) == (0 if par.attr == "tell" else 1)
+                    if n.id in self.files and not good:
+                        continue       # (judged by `analyse_files_and_yields`)
+                elif isinstance(par, ast.Call) and par.args and par.args[0] is n:
+                    k = self.t01_kind(par.func)
+                    callee = self.u.sigs.get(par.func.id) if isinstance(par.func, ast.Name) else None
+                    good = (k is not None and k[0] == "t01fileext"
+                            or callee is not None and getattr(callee, "files", None) and callee.params and callee.files == [callee.params[0][0]]
+                            or n.id in self.files and k is not None and k[0] == "t01xff" and isinstance(parents.get(id(gp)), ast.Try)
+                            and id(parents.get(id(gp))) in tries)
+                elif isinstance(par, ast.Assign) and par.value is n and n.id in self.files:
+                    good = len(par.targets) == 1 and isinstance(par.targets[0], ast.Name) and handles.get(par.targets[0].id) == n.id
+                if n.id in handles and not good:
+                    raise self.bad(f"handle variable {n.id} is used other than as the receiver of .read(n) / .seek(off) / .tell() or as the "
+                                   f"file argument of a translated / registered function")
+                if n.id in self.files and good and isinstance(n.ctx, ast.Load):
+                    ok.add(id(n))
+            if handles and (self.is_gen or self.init is not None or self.fobj is not None or self.asserts):
+                raise self.bad("handle variables in a generator / `__init__` / a method of a file-owning object / with `assert`")
+            if self.in_comprehension(set(handles)):
+                raise self.bad("a handle variable inside a comprehension")
+        self._t01_scan = (handles, tries, ok)
+        return self._t01_scan
+
+    def t01_file_uses(self) -> set:
+        return self.t01_scan()[2]
+
+    def t01_stores(self, n) -> set:
+        """the file parameter that an operation on a handle / a call that is handed a file-like object changes"""
+        out = set()
+        if not (self.t01_on() and self.files):
+            return out
+        handles, tries, _ = self.t01_scan()
+        if isinstance(n, ast.Try) and id(n) in tries:
+            out.add(n.body[0].value.args[0].id)
+        if isinstance(n, ast.Call):
+            x = None
+            if isinstance(n.func, ast.Attribute) and isinstance(n.func.value, ast.Name) and n.func.attr in ("read", "seek", "tell"):
+                x = n.func.value.id
+            elif n.args and isinstance(n.args[0], ast.Name):
+                k = self.t01_kind(n.func)
+                callee = self.u.sigs.get(n.func.id) if isinstance(n.func, ast.Name) else None
+                if k is not None and k[0] == "t01fileext" or callee is not None and getattr(callee, "files", None):
+                    x = n.args[0].id
+            if x is not None and (x in handles or x in self.files):
+                out.add(handles.get(x, x))
+                out.add(x)         # (the handle is taken again from the object the operation answers)
+        return out
+
+    def t01_attach(self, x, ind):
+        """(prelude, term of the file-like object the variable `x` stands for, the file parameter, x is a handle)"""
+        P = " " * ind
+        handles = self.t01_scan()[0]
+        F = handles.get(x, x)
+        for v in {x, F}:
+            if v not in self.declared or self.in_loop is not None and v not in self.in_loop and v in self.assigned:
+                raise self.bad(f"variable {v} may be used before it is assigned on this path / is not part of the loop state")
+        if x in handles:
+            a = self.fresh()
+            return [f"{P}let {a} ← PyU.t01Attach {lname(x)} {lname(F)}"], a, F, True
+        return [], lname(F), F, False
+
+    def t01_call(self, n: ast.Call, entry, ind):
+        """calls of the T01 subset: (prelude, term) or None — `X.read(n)` / `X.seek(off)` / `X.tell()` for a file parameter or a
+        handle `X` (dispatching on the class of the object: `PyU.t01Read / t01Seek / t01Tell`), and `g(X, …)` for a translated
+        function `g` whose first parameter is a file parameter (keyword arguments by the parameter names, defaults filled in) or an
+        external function of kind `t01fileext` (term = (Lean name, number of arguments)); both answer `(result, file-like afterwards)`"""
+        if not (self.t01_on() and self.files):
+            return None
+        P = " " * ind
+        f = n.func
+        handles = self.t01_scan()[0]
+        if (isinstance(f, ast.Attribute) and isinstance(f.value, ast.Name) and (f.value.id in handles or f.value.id in self.files)
+                and f.attr in ("read", "seek", "tell")):
+            if n.keywords or len(n.args) != (0 if f.attr == "tell" else 1):
+                raise self.bad(f"{f.attr} with keyword arguments / {len(n.args)} arguments (T01: read(n), seek(off), tell())")
+            pa, c, F, is_h = self.t01_attach(f.value.id, ind)
+            pre, args = self.exprs(n.args, ind)
+            r = self.fresh()
+            if f.attr == "read":
+                self.needs_fuel = True
+            op = {"read": "PyU.t01Read fuel", "seek": "PyU.t01Seek", "tell": "PyU.t01Tell"}[f.attr]
+            out = pa + pre + [f"{P}let {r} ← " + " ".join([op, c] + args)]
+            if is_h:
+                out.append(f"{P}{lname(f.value.id)} := PyU.t01Detach {r}.2")
+            out.append(f"{P}{lname(F)} := " + (f"PyU.t01Store {r}.2" if is_h else f"{r}.2"))
+            return out, f"{r}.1"
+        if entry is not None and entry[0] == "t01ctor":
+            # an EXTERNAL constructor `Cls(args)` (term = (Lean name, number of arguments)): a parameter of the definitions that
+            # answers the new instance; the arguments must not be mutable objects of this function (checked by `analyse`)
+            name, arity = entry[1]
+            if n.keywords or len(n.args) != arity:
+                raise self.bad(f"{ast.unparse(f)} is registered with {arity} positional arguments")
+            pre, args = self.exprs(n.args, ind)
+            self.use_extern(name)
+            t = self.fresh()
+            return pre + [f"{P}let {t} ← {name} {' '.join(args)}"], t
+        if not (n.args and isinstance(n.args[0], ast.Name) and (n.args[0].id in handles or n.args[0].id in self.files)):
+            return None
+        callee = self.u.sigs.get(f.id) if isinstance(f, ast.Name) and f.id not in self.local else None
+        if entry is not None and entry[0] == "t01fileext":
+            name, arity = entry[1]
+            if n.keywords or len(n.args) != arity:
+                raise self.bad(f"{ast.unparse(f)} is registered with {arity} positional arguments")
+            pa, c, F, is_h = self.t01_attach(n.args[0].id, ind)
+            pre, args = self.exprs(n.args[1:], ind)
+            self.use_extern(name)
+            call = " ".join([name, c] + args)
+        elif callee is not None and getattr(callee, "files", None):
+            if callee.files != [callee.params[0][0]] or callee.asserts or getattr(callee, "stops", False):
+                raise self.bad(f"{f.id}: only its first parameter may be a file parameter (and no assert / StopIteration)")
+            pa, c, F, is_h = self.t01_attach(n.args[0].id, ind)
+            rest = callee.params[1:]
+            if len(n.args) - 1 > len(rest):
+                raise self.bad(f"too many arguments for {f.id}")
+            pre, args = self.exprs(n.args[1:], ind)
+            vals = dict(zip([p for p, _ in rest], args))
+            for k in n.keywords:
+                if k.arg not in [p for p, _ in rest] or k.arg in vals:
+                    raise self.bad(f"{f.id}: unexpected / repeated argument {k.arg}")
+                pk, tk = self.expr(k.value, ind)
+                pre += pk
+                vals[k.arg] = tk
+            for p_, d in rest:
+                if p_ not in vals:
+                    if d is None:
+                        raise self.bad(f"missing argument {p_} of {f.id}")
+                    vals[p_] = d
+            if callee.fuel:
+                self.needs_fuel = True
+            for e in callee.externs:
+                self.use_extern(e)
+            call = " ".join([callee.name] + list(callee.externs) + (["fuel"] if callee.fuel else []) + [c] + [vals[p_] for p_, _ in rest])
+        else:
+            return None
+        r, q = self.fresh(), self.fresh()
+        out = pa + pre + [f"{P}let {r} ← {call}", f"{P}let {q} ← PyU.unpack2 {r}"]
+        if is_h:
+            out.append(f"{P}{lname(n.args[0].id)} := PyU.t01Detach {q}.2")
+        out.append(f"{P}{lname(F)} := " + (f"PyU.t01Store {q}.2" if is_h else f"{q}.2"))
+        return out, f"{q}.1"
+
+    def t01_stmt(self, st, ind):
+        """(lines, terminates) or None.
+        * `H = F` for a handle `H` of the file parameter `F`: `H` is the handle "the file itself" (`PyU.t01Self`);
+        * `try: H = XFF(F); <rest> except ValueError: <pass | H = F>` (see `t01_try_shape`).  The detector is an EXTERNAL function
+          (registry kind `t01xff`, term = its Lean name) that answers the pair `(handle or None, F afterwards)`: `None` when the real
+          function raises ValueError (the file is then as that run left it), else the handle of the view it returns; any other
+          exception propagates.  The handler runs exactly when the detector raised ValueError — with the file as it is then.
+          A ValueError raised by `<rest>` would reach the same handler with a state of the file that this translation does not
+          keep: `<rest>` runs under a guard that turns it into `Timeout` — there the translated definition has NO answer (as when
+          the fuel runs out), never a wrong one; the equivalence theorems are stated where `<rest>` raises no ValueError."""
+        if not (self.t01_on() and self.files):
+            return None
+        P = " " * ind
+        handles, tries, _ = self.t01_scan()
+        if (isinstance(st, ast.Assign) and len(st.targets) == 1 and isinstance(st.targets[0], ast.Name) and st.targets[0].id in handles
+                and isinstance(st.value, ast.Name) and st.value.id == handles[st.targets[0].id]):
+            return [self.bind(st.targets[0].id, "PyU.t01Self", ind)], False
+        if not (isinstance(st, ast.Try) and id(st) in tries):
+            return None
+        H, F, rest, alias = self.t01_try_shape(st)
+        entry = self.global_entry(st.body[0].value.func)
+        if entry is None or entry[0] != "t01xff":
+            raise self.bad("the detector of a T01 `try` is not the registered object")
+        if any(isinstance(m, ast.Name) and m.id == "exc0" for m in ast.walk(self.fd)):
+            raise self.bad("variable name exc0 clashes with the translator's own names")
+        if F not in self.declared or self.in_loop is not None and F not in self.in_loop:
+            raise self.bad(f"{F} is not bound here / not part of the loop state")
+        name = entry[1]
+        self.use_extern(name)
+        r, q = self.fresh(), self.fresh()
+        out = []
+        if H not in self.declared:
+            out.append(self.bind(H, "V.none", ind))
+        out += [f"{P}let {r} ← {name} {lname(F)}", f"{P}let {q} ← PyU.unpack2 {r}", f"{P}{lname(F)} := {q}.2",
+                f"{P}if (PyU.isNone {q}.1) then"]
+        out.append(f"{P}  {lname(H)} := PyU.t01Self" if alias else f"{P}  pure ()")
+        out += [f"{P}else", f"{P}  {lname(H)} := {q}.1"]
+        if rest:
+            for b in rest:
+                for m in ast.walk(b):
+                    if isinstance(m, (ast.Return, ast.Raise, ast.Yield, ast.Try, ast.Assert, ast.Continue)):
+                        raise self.bad(f"{type(m).__name__} inside the body of a T01 try statement")
+                    if isinstance(m, ast.Break) and not any(isinstance(l, (ast.For, ast.While)) and any(m is x for x in ast.walk(l)) for l in rest):
+                        raise self.bad("a `break` that leaves the body of a T01 try statement")
+            saved = list(self.declared)
+            body, _ = self.block(rest, ind + 4)
+            new = [v for v in self.declared if v not in saved]
+            if new:
+                raise self.bad(f"the body of a T01 try statement binds {new} first (declare them before the statement)")
+            out += [f"{P}  try"] + body + [f"{P}  catch exc0 =>", f"{P}    if exc0 = PyExc.valueError then",
+                                          f"{P}      throw PyExc.timeoutDiverge", f"{P}    else", f"{P}      throw exc0"]
+        return out, False
+
+    # ==== T18 (pe.py, version.py, BeaconConfig.version; run-time: lean/CsVerif/Model/PyU_T18.lean) — active for units with `unit.t18 = True`
+    # * cstruct types read from a FILE PARAMETER: `Type(fh)` (registry kind `t18type`, term : PyU.T18Ty) and `[Type(fh) for _ in range(e)]`;
+    # * `try: <body> except EOFError: <handler>`: the only operations that raise EOFError are these reads, and a failed read moves the file;
+    #   inside the body a read is `PyU.t18ReadE` (answers `none` + the file afterwards) followed by the handler, so everything the body did
+    #   before — assignments and file position — persists as in Python; the handler may end in continue / return / raise, or go on (then
+    #   the statements that follow the `try` in its block are translated behind the handler as well);
+    # * `return e` inside a `for` / `while`: the hidden variable `ret0` (RET) carries the value out of the loops;
+    # * calls of translated functions that take a file parameter (positional / keyword arguments), chained comparisons `a < b < c`,
+    #   `range(n)` as the iterable of a `for`, `n.to_bytes(l, o)`, variables that every going-on path of an `if` assigns (declared before it).
+    def t18_on(self) -> bool:
+        return bool(getattr(self.u, "t18", False))
+
+    def t18_kind(self, f):
+        """registry kind of a called name, by its spelling (that the name denotes the registered object is checked by `global_entry` when
+        the call is translated; local names that shadow a registered global are rejected by `analyse`)"""
+        try:
+            ent = self.u.registry.get(ast.unparse(f))
+        except Exception:  # noqa: BLE001
+            return None
+        return ent[1] if ent is not None else None
+
+    def t18_is_read(self, n) -> bool:
+        """`Type(fh)` for a registered cstruct type and a file parameter"""
+        return (self.t18_on() and isinstance(n, ast.Call) and not n.keywords and len(n.args) == 1 and isinstance(n.args[0], ast.Name)
+                and n.args[0].id in self.files and self.t18_kind(n.func) == "t18type")
+
+    def t18_readmany(self, n):
+        """`[Type(fh) for _ in range(e)]` (the target is not used by the element): (the read call, e) or None"""
+        if not (self.t18_on() and isinstance(n, ast.ListComp) and any(self.t18_is_read(m) for m in ast.walk(n))):
+            return None
+        g = n.generators[0]
+        ok = (len(n.generators) == 1 and not g.is_async and not g.ifs and isinstance(g.target, ast.Name) and self.t18_is_read(n.elt)
+              and isinstance(g.iter, ast.Call) and self.is_builtin_name(g.iter.func, "range") and len(g.iter.args) == 1 and not g.iter.keywords
+              and g.target.id != n.elt.args[0].id and g.target.id not in self.files
+              and not any(isinstance(m, ast.Name) and m.id in (g.target.id, n.elt.args[0].id) for m in ast.walk(g.iter)))
+        if not ok:
+            raise self.bad(f"{ast.unparse(n)[:60]}: a structure read inside a comprehension other than `[Type(fh) for _ in range(e)]`")
+        return n.elt, g.iter.args[0]
+
+    def t18_filecall(self, n):
+        """a call of a translated function of this unit that takes a file parameter: (its Sig, {parameter: argument node} in source order)"""
+        if not (self.t18_on() and isinstance(n, ast.Call) and isinstance(n.func, ast.Name) and n.func.id in self.u.sigs
+                and n.func.id not in getattr(self, "local", ())):
+            return None
+        sg = self.u.sigs[n.func.id]
+        if not getattr(sg, "files", None):
+            return None
+        names = [p for p, _ in sg.params]
+        if len(n.args) > len(names) or len(sg.files) != 1:
+            raise self.bad(f"{n.func.id}: too many arguments / more than one file parameter")
+        bound = dict(zip(names, n.args))
+        for k in n.keywords:
+            if k.arg is None or k.arg not in names or k.arg in bound:
+                raise self.bad(f"{n.func.id}: unknown / repeated keyword argument {k.arg}")
+            bound[k.arg] = k.value
+        a = bound.get(sg.files[0])
+        if not (isinstance(a, ast.Name) and a.id in self.files):
+            raise self.bad(f"{n.func.id}: the file parameter {sg.files[0]} must be given a file parameter of the caller")
+        obj = getattr(sg, "t18_obj", None)
+        if obj is not None and self.globs.get(n.func.id) is not obj:
+            raise self.bad(f"the name {n.func.id} does not denote the translated function")
+        return sg, bound
+
+    def t18_file_uses(self) -> set:
+        """more places where a file parameter may occur: the argument of `Type(fh)`, the file argument of a translated function, an
+        argument of a call without effect (kind `noop`)"""
+        ok = set()
+        if not self.t18_on():
+            return ok
+        for n in ast.walk(self.fd):
+            if self.t18_is_read(n):
+                ok.add(id(n.args[0]))
+                continue
+            fc = self.t18_filecall(n)
+            if fc is not None:
+                ok.add(id(fc[1][fc[0].files[0]]))
+            elif isinstance(n, ast.Call) and not n.keywords and self.t18_kind(n.func) == "noop":
+                ok |= {id(a) for a in n.args if isinstance(a, ast.Name) and a.id in self.files}
+        return ok
+
+    def t18_ret_in_loop(self) -> bool:
+        return self.t18_on() and any(isinstance(m, ast.Return) for n in ast.walk(self.fd) if isinstance(n, (ast.For, ast.While))
+                                     for b in n.body + n.orelse for m in ast.walk(b))
+
+    def t18_stores(self, n) -> set:
+        out = set()
+        if not self.t18_on():
+            return out
+        if self.t18_is_read(n):
+            out.add(n.args[0].id)          # `Type(fh)` moves the file
+        elif isinstance(n, ast.Return):
+            if self.t18_ret_in_loop():
+                out.add(RET)               # `return e` inside a loop assigns the hidden variable
+        else:
+            fc = self.t18_filecall(n)
+            if fc is not None:
+                out.add(fc[1][fc[0].files[0]].id)
+        return out
+
+    def t18_is_eof_try(self, st) -> bool:
+        if not (self.t18_on() and isinstance(st, ast.Try) and len(st.handlers) == 1 and not st.orelse and not st.finalbody):
+            return False
+        h = st.handlers[0]
+        return h.name is None and isinstance(h.type, ast.Name) and h.type.id == "EOFError" and self.is_builtin_name(h.type, "EOFError") \
+            and "EOFError" not in getattr(self, "local", ())
+
+    def t18_expr(self, n, ind):
+        """expressions of the T18 subset: (prelude, term) or None"""
+        if not self.t18_on():
+            return None
+        props = getattr(self.u, "t18_extern_props", {})
+        if (isinstance(n, ast.Attribute) and isinstance(n.ctx, ast.Load) and n.attr in props and isinstance(n.value, ast.Name) and self.params
+                and n.value.id == self.params[0] and n.value.id not in self.assigned and n.value.id not in self.mutable):
+            # `self.<property>` for a property whose getter is an EXTERNAL function of `self` (`unit.t18_extern_props = {name: extern}`)
+            self.use_extern(props[n.attr])
+            t = self.fresh()
+            return [f"{' ' * ind}let {t} ← {props[n.attr]} {lname(n.value.id)}"], t
+        rm = self.t18_readmany(n) if isinstance(n, ast.ListComp) else None
+        if rm is None:
+            return None
+        P = " " * ind
+        read, count = rm
+        pc, c = self.expr(count, ind)          # `range(e)` is evaluated before the first read
+        fv = read.args[0].id
+        ty = self.global_entry(read.func)[1]
+        if fv not in self.declared:
+            raise self.bad(f"{fv} is not bound here")
+        a = self.fresh()
+        if getattr(self, "t18_eof_ctx", None) is None:
+            return pc + [f"{P}let {a} ← PyU.t18ReadMany {ty} {lname(fv)} {c}", f"{P}{lname(fv)} := {a}.2"], f"{a}.1"
+        lines, b = self.t18_guard(f"PyU.t18ReadManyE {ty} {lname(fv)} {c}", fv, a, ind)
+        return pc + lines, b
+
+    def t18_guard(self, rhs, fv, a, ind):
+        """a read inside `try: … except EOFError:` — the file is rebound first (the failed read has moved it), then the handler runs when
+        the read answered `none`; ([lines], term)"""
+        P = " " * ind
+        ctx = self.t18_eof_ctx
+        if ctx["in_loop"] is not self.in_loop:
+            raise self.bad("a structure read inside a loop inside `try: … except EOFError:` (the handler belongs to the enclosing block)")
+        b = self.fresh()
+        ctx["guards"] += 1
+        return [f"{P}let {a} ← {rhs}", f"{P}{lname(fv)} := {a}.2", f"{P}let some {b} := {a}.1", f"{P}  | do", f"{P}      «H»"], b
+
+    def t18_call(self, n: ast.Call, entry, ind):
+        """calls of the T18 subset: (prelude, term) or None"""
+        if not self.t18_on():
+            return None
+        P = " " * ind
+        f = n.func
+        if entry is not None and entry[0] == "t18type":
+            if not self.t18_is_read(n):
+                raise self.bad(f"{ast.unparse(n)[:50]}: a cstruct type is called with something other than one file parameter")
+            fv = n.args[0].id
+            if fv not in self.declared:
+                raise self.bad(f"{fv} is not bound here")
+            a = self.fresh()
+            if getattr(self, "t18_eof_ctx", None) is None:
+                return [f"{P}let {a} ← PyU.t18Read {entry[1]} {lname(fv)}", f"{P}{lname(fv)} := {a}.2"], f"{a}.1"
+            return self.t18_guard(f"PyU.t18ReadE {entry[1]} {lname(fv)}", fv, a, ind)
+        if entry is not None and entry[0] == "t18cm":
+            # `Cls.method(args)` for a classmethod translated in this unit (term = (key in unit.sigs, Lean term passed for `cls`))
+            key, cls_term = entry[1]
+            sg = self.u.sigs.get(key)
+            if sg is None or n.keywords or sg.fuel or sg.asserts or getattr(sg, "files", None) or len(n.args) != len(sg.params) - 1:
+                raise self.bad(f"{ast.unparse(f)}: not a translated classmethod called with all its positional arguments")
+            pre, args = self.exprs(n.args, ind)
+            for e in sg.externs:
+                self.use_extern(e)
+            t = self.fresh()
+            return pre + [f"{P}let {t} ← {sg.name} {' '.join(list(sg.externs) + [cls_term] + args)}"], t
+        fc = self.t18_filecall(n)
+        if fc is not None:
+            sg, bound = fc
+            if getattr(self, "t18_eof_ctx", None) is not None:
+                raise self.bad(f"call of {f.id} inside `try: … except EOFError:` (it may raise EOFError after moving the file)")
+            if sg.asserts or getattr(sg, "stops", False) or getattr(sg, "fobj", None) is not None:
+                raise self.bad(f"{f.id}: assert / StopIteration / a file-owning object in a function that is handed a file parameter")
+            pre, vals = [], {}
+            for pname, node in bound.items():          # source order: positional arguments, then the keywords as written
+                p, t = self.expr(node, ind)
+                pre += p
+                vals[pname] = t
+            args = []
+            for pname, d in sg.params:
+                if pname not in vals and d is None:
+                    raise self.bad(f"missing argument {pname} of {f.id}")
+                args.append(vals.get(pname, d))
+            if sg.fuel:
+                self.needs_fuel = True
+                args.insert(0, "fuel")
+            for e in sg.externs:
+                self.use_extern(e)
+            fv = bound[sg.files[0]].id
+            if fv not in self.declared:
+                raise self.bad(f"{fv} is not bound here")
+            r, q = self.fresh(), self.fresh()
+            return pre + [f"{P}let {r} ← {sg.name} {' '.join(list(sg.externs) + args)}", f"{P}let {q} ← PyU.unpack2 {r}",
+                          f"{P}{lname(fv)} := {q}.2"], f"{q}.1"
+        if n.keywords:
+            return None
+        if self.is_builtin(f, "range") and len(n.args) == 1:
+            pa, a = self.expr(n.args[0], ind)      # only as the iterable of a `for` (checked by `t18_stmt_checks`)
+            t = self.fresh()
+            return pa + [f"{P}let {t} ← PyU.rangeV {a}"], t
+        if isinstance(f, ast.Attribute) and f.attr == "to_bytes" and len(n.args) == 2 and self.dotted(f) is None:
+            po, o = self.expr(f.value, ind)
+            pre, args = self.exprs(n.args, ind)
+            t = self.fresh()
+            return po + pre + [f"{P}let {t} ← PyU.t18ToBytes {o} {args[0]} {args[1]}"], t
+        return None
+
+    def t18_chain(self, n: ast.Compare, ind):
+        """`a <op1> b <op2> c` for two ordering operators: `b` is evaluated once; `c` only when the first comparison holds"""
+        P = " " * ind
+        if len(n.ops) != 2 or any(type(o) not in ORDER for o in n.ops):
+            raise self.bad("chained comparison (other than two ordering operators)")
+        pa, a = self.expr(n.left, ind)
+        pb, b = self.expr(n.comparators[0], ind)
+        t1, r = self.fresh(), self.fresh()
+        pc, c = self.expr(n.comparators[1], ind + 2)
+        t2 = self.fresh()
+        return (pa + pb + [f"{P}let {t1} ← PyU.{ORDER[type(n.ops[0])]} {a} {b}", f"{P}let mut {r} := {t1}", f"{P}if {r} then"] + pc
+                + [f"{P}  let {t2} ← PyU.{ORDER[type(n.ops[1])]} {b} {c}", f"{P}  {r} := {t2}"]), r
+
+    def t18_checks(self):
+        """`range(n)` only as the iterable of a `for` / of the comprehension `[Type(fh) for _ in range(n)]`"""
+        if not self.t18_on():
+            return
+        parents = {id(c): m for m in ast.walk(self.fd) for c in ast.iter_child_nodes(m)}
+        for n in ast.walk(self.fd):
+            if isinstance(n, ast.Call) and self.is_builtin_name(n.func, "range"):
+                par = parents.get(id(n))
+                if not (isinstance(par, ast.For) and par.iter is n or isinstance(par, ast.comprehension) and par.iter is n) or n.keywords:
+                    raise self.bad("range(…) other than as the iterable of a `for`")
+        if self.t18_ret_in_loop() and (self.is_gen or self.init is not None or any(isinstance(n, ast.Name) and n.id == "ret0" for n in ast.walk(self.fd))):
+            raise self.bad("`return` inside a loop in a generator / `__init__` / next to a variable called ret0")
+
+    def t18_stmt(self, st, ind, stmts):
+        """statements of the T18 subset: (lines, terminates) or None"""
+        if not self.t18_on():
+            return None
+        P = " " * ind
+        busy = self.__dict__.setdefault("t18_busy", set())
+        if isinstance(st, ast.Return) and self.in_loop is not None:
+            if st.value is None or RET not in self.in_loop:
+                raise self.bad("bare return inside a loop / the loop state does not carry ret0")
+            p, t = self.expr(st.value, ind)
+            return p + [f"{P}ret0 := PyU.t18Ret {t}", self.exit_loop("brk", ind)], True
+        if isinstance(st, (ast.For, ast.While)) and id(st) not in busy and any(isinstance(m, ast.Return) for b in st.body + st.orelse for m in ast.walk(b)):
+            if st.orelse:
+                raise self.bad("loop … else with a `return` inside")
+            busy.add(id(st))
+            lines, term = self.block([st], ind)
+            busy.discard(id(st))
+            if lines and lines[-1].strip() == "pure ()":
+                lines.pop()
+            if self.in_loop is None:
+                leave = f"{P}  return {self.result_term('(PyU.t18RetVal ret0)')}"
+            else:
+                leave = self.exit_loop("brk", ind + 2)
+            return lines + [f"{P}if PyU.t18Returned ret0 then", leave], False
+        if isinstance(st, ast.If) and id(st) not in busy:
+            later = stmts[stmts.index(st) + 1:]
+            read_later = {m.id for s in later for m in ast.walk(s) if isinstance(m, ast.Name) and isinstance(m.ctx, ast.Load)}
+            new = [v for v in self.t15_def_assigned([st])[0] if v not in self.declared and v in read_later and v not in self.mutable]
+            if not new:
+                return None
+            lines = [self.bind(v, "V.none", ind) for v in new]     # declared before the `if` (Lean scoping); the value `None` is never read
+            busy.add(id(st))
+            body, term = self.block([st], ind)
+            busy.discard(id(st))
+            return lines + body, term
+        if isinstance(st, ast.Try) and self.t18_is_eof_try(st):
+            return self.t18_try(st, ind, stmts)
+        return None
+
+    def t18_try(self, st: ast.Try, ind, stmts):
+        """`try: <body> except EOFError: <handler>` (see the head of this section).  Checked: the body contains no `raise`, no nested `try`,
+        no `yield` / `assert`, no call of a translated function (only `Type(fh)` reads can raise EOFError there, each one guarded on
+        its own); no read inside a loop of the body; the handler (with the continuation, when it goes on) contains no loop / `try` and
+        ends in return / raise / break / continue on every path; it is translated ONCE, with the variables that are bound when the
+        `try` starts (a variable first assigned in the body is not visible to it)."""
+        P = " " * ind
+        h = st.handlers[0]
+        if getattr(self, "t18_eof_ctx", None) is not None or self.asserts or self.stops or self.is_gen:
+            raise self.bad("nested `try: … except EOFError:` / in a function with assert / StopIteration / yield")
+        for b in st.body:
+            for n in ast.walk(b):
+                if isinstance(n, (ast.Raise, ast.Try, ast.Yield, ast.Assert)):
+                    raise self.bad(f"{type(n).__name__} inside the body of `try: … except EOFError:`")
+                if isinstance(n, ast.Call) and isinstance(n.func, ast.Name) and n.func.id in self.u.sigs and n.func.id not in self.local:
+                    raise self.bad(f"call of {n.func.id} inside the body of `try: … except EOFError:`")
+        later = stmts[stmts.index(st) + 1:]
+        saved = list(self.declared)
+        hl, hterm = self.block(h.body, 0)
+        if not hterm:
+            # the handler goes on: what follows the `try` in its block runs behind it
+            self.declared = list(saved)
+            cont = list(h.body) + later
+            if any(isinstance(n, (ast.For, ast.While, ast.Try, ast.ListComp, ast.DictComp)) for s in cont for n in ast.walk(s)):
+                raise self.bad("an EOFError handler that goes on, followed by a loop / try / comprehension")
+            hl, hterm = self.block(cont, 0)
+            if not hterm:
+                raise self.bad("an EOFError handler that goes on, in a block that does not end in return / raise / break / continue")
+        elif any(isinstance(n, (ast.For, ast.While, ast.Try, ast.ListComp, ast.DictComp)) for s in h.body for n in ast.walk(s)):
+            raise self.bad("loop / try / comprehension inside an EOFError handler")
+        self.declared = list(saved)
+        self.t18_eof_ctx = {"in_loop": self.in_loop, "guards": 0}
+        try:
+            body, bterm = self.block(st.body, ind)
+        finally:
+            self.t18_eof_ctx = None
+        out = []
+        for i, line in enumerate(body):
+            if line.strip() != "«H»":
+                out.append(line)
+                continue
+            sp = line[:len(line) - len(line.lstrip())]
+            out += [sp + x for x in hl]
+            nxt = body[i + 1] if i + 1 < len(body) else None
+            gi = len(sp) - 6           # the indentation of the guarded statement
+            if nxt is None or len(nxt) - len(nxt.lstrip()) < gi:
+                out.append(" " * gi + "pure ()")      # a Lean `do` block cannot end with a binding
+        return out, bterm
+
+    # ==== T13 (c2profile.py `C2Profile.from_beacon_config`; run-time: lean/CsVerif/Model/PyU_T13.lean) — active for units with `unit.t13 = True`
+    def t13_on(self) -> bool:
+        return bool(getattr(self.u, "t13", False))
+
+    def t13_genexp_ok(self, g) -> bool:
+        """a generator expression is accepted as the sole argument of `<expr>.join(<generator expression>)`: `str.join` / `bytes.join`
+        build the complete sequence of the items first (`PySequence_Fast`) and look at them afterwards, exactly as for the list
+        comprehension with the same clauses, which is what is translated (`listcomp`)"""
+        if not self.t13_on():
+            return False
+        return any(isinstance(c, ast.Call) and c.args == [g] and not c.keywords and isinstance(c.func, ast.Attribute) and c.func.attr == "join"
+                   for c in ast.walk(self.fd))
+
+    def t13_is_ddctor(self, v) -> bool:
+        return isinstance(v, ast.Call) and self.global_kind(v.func) == "t13ddlist"
+
+    def t13_ddvars(self) -> set:
+        """DEFAULTDICT variables: local variables assigned by `v = collections.defaultdict(list)` (registry kind `t13ddlist`); that
+        every assignment has this form and every use is one the translator models is checked by `t13_analyse`"""
+        if not self.t13_on():
+            return set()
+        if getattr(self, "_t13_dd", None) is None:
+            self._t13_dd = {n.targets[0].id for n in ast.walk(self.fd)
+                            if isinstance(n, ast.Assign) and len(n.targets) == 1 and isinstance(n.targets[0], ast.Name) and self.t13_is_ddctor(n.value)}
+        return self._t13_dd
+
+    def t13_dd_append(self, n):
+        """`v[k].append(e)` (the Call node) for a defaultdict variable `v`: (v, key expression, argument expression), else None"""
+        if not self.t13_on():
+            return None
+        if (isinstance(n, ast.Call) and isinstance(n.func, ast.Attribute) and n.func.attr == "append" and isinstance(n.func.value, ast.Subscript)
+                and isinstance(n.func.value.ctx, ast.Load) and not isinstance(n.func.value.slice, ast.Slice)
+                and isinstance(n.func.value.value, ast.Name) and n.func.value.value.id in self.t13_ddvars()):
+            if len(n.args) != 1 or n.keywords:
+                raise self.bad("append with other than one argument")
+            return n.func.value.value.id, n.func.value.slice, n.args[0]
+        return None
+
+    def t13_stores(self, n) -> set:
+        """`v[k].append(e)` changes the variable `v` (by its spelling only: usable before the analysis has run)"""
+        if (self.t13_on() and isinstance(n, ast.Call) and isinstance(n.func, ast.Attribute) and n.func.attr == "append"
+                and isinstance(n.func.value, ast.Subscript) and not isinstance(n.func.value.slice, ast.Slice) and isinstance(n.func.value.value, ast.Name)):
+            return {n.func.value.value.id}
+        return set()
+
+    def t13_analyse(self):
+        """A DEFAULTDICT variable `v` holds a `collections.defaultdict(list)` that this function created; the dict and the lists in it
+        are threaded as ONE value (`V.dict keys [V.list …]`).  That is exact when no second reference to the dict or to one of its lists
+        can be used to change or observe it: `v` occurs only as the target of `v = collections.defaultdict(list)`, in the whole
+        statement `v[k].append(e)`, and as `v.items()` being the iterable of a `for` statement whose target and body do not mention
+        `v` (the lists handed to the loop body are the ones in the dict: every `v[k].append(e)` of the function stands textually before
+        that `for`, and the `for` is not inside a loop that contains one); no `try` (an exception between the lookup `v[k]`, which may
+        insert a key, and the `append` always leaves the function)."""
+        dd = self.t13_ddvars()
+        if not dd:
+            return
+        fd = self.fd
+        if any(isinstance(n, ast.Try) for n in ast.walk(fd)) or self.is_gen or self.init is not None or self.method_of is not None or self.fobj is not None:
+            raise self.bad("a defaultdict variable in a function with try / yield, in `__init__`, in a method")
+        if self.in_comprehension(dd):
+            raise self.bad("a defaultdict variable inside a comprehension")
+        parents = {id(c): n for n in ast.walk(fd) for c in ast.iter_child_nodes(n)}
+        appends = [n for n in ast.walk(fd) if self.t13_dd_append(n) is not None]
+        for n in ast.walk(fd):
+            if self.t13_is_ddctor(n):
+                par = parents.get(id(n))
+                if not (isinstance(par, ast.Assign) and par.value is n and len(par.targets) == 1 and isinstance(par.targets[0], ast.Name)):
+                    raise self.bad(f"{ast.unparse(n)[:40]} must be the whole right-hand side of `v = …`")
+                if n.keywords or len(n.args) != 1 or not self.is_builtin(n.args[0], "list"):
+                    raise self.bad(f"{ast.unparse(n)[:40]}: only `collections.defaultdict(list)`")
+            if not (isinstance(n, ast.Name) and n.id in dd):
+                continue
+            v = n.id
+            if v in self.params or v in self.mutable:
+                raise self.bad(f"defaultdict variable {v} is a parameter / the receiver of a mutating method")
+            par = parents.get(id(n))
+            gp = parents.get(id(par))
+            ggp = parents.get(id(gp))
+            if isinstance(n.ctx, ast.Store):
+                ok = isinstance(par, ast.Assign) and len(par.targets) == 1 and par.targets[0] is n and self.t13_is_ddctor(par.value)
+            else:
+                ok = (isinstance(par, ast.Subscript) and par.value is n and isinstance(gp, ast.Attribute) and gp.value is par
+                      and isinstance(ggp, ast.Call) and ggp.func is gp and self.t13_dd_append(ggp) is not None
+                      and isinstance(parents.get(id(ggp)), ast.Expr))
+                if (not ok and isinstance(par, ast.Attribute) and par.value is n and par.attr == "items" and isinstance(gp, ast.Call) and gp.func is par
+                        and not gp.args and not gp.keywords and isinstance(ggp, ast.For) and ggp.iter is gp):
+                    inside = [ggp.target] + ggp.body + ggp.orelse
+                    ok = not any(isinstance(m, ast.Name) and m.id == v for s in inside for m in ast.walk(s))
+                    for a in appends:
+                        if self.t13_dd_append(a)[0] != v:
+                            continue
+                        if (a.lineno, a.col_offset) >= (ggp.lineno, ggp.col_offset):
+                            ok = False
+                        q = parents.get(id(ggp))
+                        while q is not None:
+                            if isinstance(q, (ast.For, ast.While)) and any(m is a for m in ast.walk(q)):
+                                ok = False
+                            q = parents.get(id(q))
+            if not ok:
+                raise self.bad(f"defaultdict variable {v} is used other than by `{v} = collections.defaultdict(list)`, `{v}[k].append(e)`, "
+                               f"`for … in {v}.items():` (after the last append)")
+
+    def t13_allowed(self) -> set:
+        """positions where a mutable variable (a list this function builds) may occur without creating a second reference that this
+        function could observe: an argument of an EXTERNAL function (assumed of every registered external function of a `t13` unit: it
+        neither keeps nor changes its arguments), and a truth test (`if v:`, `not v`, an operand of `and` / `or` in the test of an `if`)"""
+        ok = set()
+        if not self.t13_on():
+            return ok
+        for n in ast.walk(self.fd):
+            if isinstance(n, ast.Call) and self.global_kind(n.func) == "extern":
+                ok |= {id(a) for a in list(n.args) + [k.value for k in n.keywords] if isinstance(a, ast.Name)}
+            if isinstance(n, (ast.If, ast.While, ast.IfExp)):
+                tests = [n.test] + (list(n.test.values) if isinstance(n.test, ast.BoolOp) else [])
+                ok |= {id(t) for t in tests if isinstance(t, ast.Name)}
+            if isinstance(n, ast.UnaryOp) and isinstance(n.op, ast.Not) and isinstance(n.operand, ast.Name):
+                ok.add(id(n.operand))
+        return ok
+
+    def t13_call(self, n: ast.Call, entry, ind):
+        """calls of the T13 subset: (prelude, term) or None"""
+        if not self.t13_on():
+            return None
+        P = " " * ind
+        f = n.func
+        if entry is not None and entry[0] == "t13ddlist":
+            return [], "(V.dict [] [])"        # `collections.defaultdict(list)` (position and argument checked by `t13_analyse`)
+        if isinstance(f, ast.Attribute) and f.attr == "items" and not n.args and not n.keywords and self.dotted(f) is None:
+            po, o = self.expr(f.value, ind)
+            t = self.fresh()
+            return po + [f"{P}let {t} ← PyU.t13Items {o}"], t
+        return None
+
+    def t13_stmt(self, st, ind):
+        """`v[k].append(e)` for a defaultdict variable `v`, in CPython's evaluation order: the key, the lookup `v[k]` (a missing key is
+        inserted with an empty list; an unhashable key is a TypeError), the argument, the append — lines, or None"""
+        what = self.t13_dd_append(st.value) if isinstance(st, ast.Expr) else None
+        if what is None:
+            return None
+        P = " " * ind
+        v, key, arg = what
+        if v not in self.declared:
+            raise self.bad(f"variable {v} may be used before it is assigned on this path")
+        pk, k = self.expr(key, ind)
+        d1, d2 = self.fresh(), self.fresh()
+        pa, a = self.expr(arg, ind)
+        return (pk + [f"{P}let {d1} ← PyU.t13DdItem {lname(v)} {k}"] + pa
+                + [f"{P}let {d2} ← PyU.t13DdAppend {d1} {k} {a}", f"{P}{lname(v)} := {d2}"])
+
+    # ==== T11 (c2profile.py: C2Profile.as_dict, ConfigBlock and the block builders; run-time: lean/CsVerif/Model/PyU_T11.lean) — active
+    # for units with `unit.t11 = <Lean term of the class descriptor of lark.Token>` ===================================================
+    def t11_tok(self):
+        return getattr(self.u, "t11", None)
+
+    def t11_self(self):
+        """T11 SELF-MODE: `unit.t11_self = (name, [attributes], {method: key in unit.sigs})` and the first parameter of this function
+        has that name: the parameter is an instance (`V.inst cls [attributes]`) that OWNS the objects its attributes hold (assumed of
+        the callers: nothing else refers to them while the function runs).  The instance is threaded as a value and the translated
+        definition ALWAYS answers the tuple `(result, self afterwards)`; a function body that ends without `return` answers `None`.
+        `self` may occur only as (checked by `t11_mutables`)
+          * `self.a` read as a value (any listed attribute, a leading underscore is fine: the descriptor lists the fields),
+          * `self.a = e` / `self.a op= e` as a statement,
+          * `self.a.append(e)` / `self.a.b.append(e)` as a statement (the list is a part of the instance / of the object `self.a`),
+          * `self.m(args)` for a listed method that was translated before in the same mode (statement or expression).
+        Reads hand out copies: exact as long as nothing is changed through what was read (a change needs one of the forms above)."""
+        cfg = getattr(self.u, "t11_self", None)
+        if not self.t11_tok() or cfg is None or not self.params or self.params[0] != cfg[0] or self.init is not None:
+            return None
+        return cfg
+
+    def t11_ddvars(self) -> set:
+        """the DEFAULTDICT variables: local variables (not parameters) every assignment of which is `d = collections.defaultdict(list)`
+        (registry kind `t11ddlist`; found by spelling, the object is checked when the call is translated)"""
+        if not self.t11_tok():
+            return set()
+        if getattr(self, "_t11_dd", None) is None:
+            cand, targets = set(), set()
+            for n in ast.walk(self.fd):
+                if isinstance(n, ast.Assign) and len(n.targets) == 1 and isinstance(n.targets[0], ast.Name) and isinstance(n.value, ast.Call) \
+                        and (self.t17_reg_kind(n.value.func) or (None,))[0] == "t11ddlist":
+                    cand.add(n.targets[0].id)
+                    targets.add(id(n.targets[0]))
+            for n in ast.walk(self.fd):
+                if isinstance(n, ast.Name) and n.id in cand and not isinstance(n.ctx, ast.Load) and id(n) not in targets:
+                    cand.discard(n.id)
+            self._t11_dd = cand - set(self.params)
+        return self._t11_dd
+
+    def t11_special_store(self, n):
+        """the Call node of `d[k].append(e)` for a defaultdict variable `d`: ("dd", d, key expression, e); of `self.a.append(e)` /
+        `self.a.b.append(e)` in self-mode: ("selfapp", [a] or [a, b], e); else None"""
+        if not self.t11_tok() or not (isinstance(n, ast.Call) and isinstance(n.func, ast.Attribute) and n.func.attr == "append"):
+            return None
+        recv = n.func.value
+        arg = n.args[0] if len(n.args) == 1 and not n.keywords else None
+        if (isinstance(recv, ast.Subscript) and isinstance(recv.ctx, ast.Load) and not isinstance(recv.slice, ast.Slice)
+                and isinstance(recv.value, ast.Name) and recv.value.id in self.t11_ddvars()):
+            return ("dd", recv.value.id, recv.slice, arg)
+        cfg = self.t11_self()
+        if cfg is not None:
+            chain, e = [], recv
+            while isinstance(e, ast.Attribute):
+                chain.append(e.attr)
+                e = e.value
+            if isinstance(e, ast.Name) and e.id == cfg[0] and 1 <= len(chain) <= 2 and chain[-1] in cfg[1]:
+                return ("selfapp", chain[::-1], arg)
+        return None
+
+    def t11_self_store(self, n):
+        """self-mode: a node that changes `self`: an attribute store `self.a`, one of the append forms, a call `self.m(…)`"""
+        cfg = self.t11_self()
+        if cfg is None:
+            return False
+        me = cfg[0]
+        if isinstance(n, ast.Attribute) and not isinstance(n.ctx, ast.Load) and isinstance(n.value, ast.Name) and n.value.id == me:
+            return True
+        if isinstance(n, ast.Call) and isinstance(n.func, ast.Attribute) and isinstance(n.func.value, ast.Name) and n.func.value.id == me \
+                and n.func.attr in cfg[2]:
+            return True
+        what = self.t11_special_store(n)
+        return what is not None and what[0] == "selfapp"
+
+    def t11_stores(self, n) -> set:
+        out = set()
+        if not self.t11_tok():
+            return out
+        what = self.t11_special_store(n)
+        if what is not None and what[0] == "dd":
+            out.add(what[1])
+        if self.t11_self_store(n):
+            out.add(self.params[0])
+        return out
+
+    def t11_genexp_ok(self, g) -> bool:
+        """a generator expression is accepted as the sole argument of `tuple(…)` (it is consumed completely, at once)"""
+        if not self.t11_tok():
+            return False
+        return any(isinstance(c, ast.Call) and c.args == [g] and not c.keywords and isinstance(c.func, ast.Name) and c.func.id == "tuple"
+                   for c in ast.walk(self.fd))
+
+    def t11_mutables(self) -> set:
+        """the defaultdict variables are mutable variables (always bound to a fresh object); they may occur only in `d[k].append(e)`,
+        as the argument of `dict(d)`, and in `return d`.  Self-mode: the occurrences of `self` are checked (see `t11_self`)."""
+        if not self.t11_tok():
+            return set()
+        fd = self.fd
+        parents = {id(c): n for n in ast.walk(fd) for c in ast.iter_child_nodes(n)}
+        self.t11_ok_names = set()
+        dd = self.t11_ddvars()
+        for n in ast.walk(fd):
+            if not (isinstance(n, ast.Name) and n.id in dd):
+                continue
+            par, gp = parents.get(id(n)), None
+            gp = parents.get(id(par))
+            ggp = parents.get(id(gp))
+            if isinstance(n.ctx, ast.Store):
+                ok = True          # (by `t11_ddvars`: the target of `d = collections.defaultdict(list)`)
+            else:
+                ok = (isinstance(par, ast.Subscript) and par.value is n and isinstance(ggp, ast.Call) and (self.t11_special_store(ggp) or (None,))[0] == "dd"
+                      and isinstance(parents.get(id(ggp)), ast.Expr)
+                      or isinstance(par, ast.Call) and par.args == [n] and not par.keywords and self.is_builtin(par.func, "dict")
+                      or isinstance(par, ast.Return))
+            if not ok:
+                raise self.bad(f"defaultdict variable {n.id} is used other than in `{n.id}[k].append(e)`, `dict({n.id})`, `return {n.id}`")
+            self.t11_ok_names.add(id(n))
+        if dd and self.in_comprehension(dd):
+            raise self.bad("a defaultdict variable inside a comprehension")
+        cfg = self.t11_self()
+        if cfg is not None:
+            me, attrs, meths = cfg
+            if self.is_gen or self.files or self.fobj is not None or self.method_of is not None or self.asserts:
+                raise self.bad("self-mode in a generator / with file parameters / method_of / assert")
+            for n in ast.walk(fd):
+                if not (isinstance(n, ast.Name) and n.id == me):
+                    continue
+                par = parents.get(id(n))
+                gp = parents.get(id(par))
+                ok = False
+                if isinstance(n.ctx, ast.Load) and isinstance(par, ast.Attribute) and par.value is n:
+                    if isinstance(gp, ast.Call) and gp.func is par:
+                        ok = par.attr in meths and meths[par.attr] in self.u.sigs and not gp.keywords
+                    elif not isinstance(par.ctx, ast.Load):
+                        tgt = gp.targets if isinstance(gp, ast.Assign) else ([gp.target] if isinstance(gp, (ast.AnnAssign, ast.AugAssign)) else [])
+                        ok = par.attr in attrs and len(tgt) == 1 and tgt[0] is par
+                    else:
+                        ok = par.attr in attrs
+                        # `self.a.append(…)` / `self.a.b.append(…)` only as whole statements; no other method call on a part of `self`
+                        top, up = par, gp
+                        while isinstance(up, ast.Attribute) and up.value is top:
+                            top, up = up, parents.get(id(up))
+                        if isinstance(up, ast.Call) and up.func is top and top is not par:
+                            ok = ok and self.t11_special_store(up) is not None and isinstance(parents.get(id(up)), ast.Expr)
+                if not ok:
+                    raise self.bad(f"`{me}` is used other than as {me}.<attribute>, `{me}.a = e`, `{me}.a[.b].append(e)`, {me}.<translated method>(…)")
+                self.t11_ok_names.add(id(n))
+            if self.in_comprehension({me}):
+                raise self.bad(f"`{me}` inside a comprehension")
+            if any(self.t11_self_store(n) for n in ast.walk(fd)):
+                self.assigned.add(me)
+        return set(dd)
+
+    def t11_allowed(self) -> set:
+        """positions where a mutable variable may occur without creating a second reference to the object: the argument of
+        `xs.extend(v)` / `repr(v)` / `tuple(v)` / `dict(v)` / `str(v)` / `sep.join(v)` (the items are copied / only read), the object
+        of a slice read `v[a:b]` (a copy), an operand of `+` (a new list), the iterable of a comprehension / generator expression (a
+        snapshot; the comprehension cannot change a variable); the checked occurrences of defaultdict variables and of `self`"""
+        ok = set()
+        if not self.t11_tok():
+            return ok
+        ok |= getattr(self, "t11_ok_names", set())
+        for n in ast.walk(self.fd):
+            if isinstance(n, ast.Call) and not n.keywords and len(n.args) == 1 and isinstance(n.args[0], ast.Name):
+                f = n.func
+                if isinstance(f, ast.Attribute) and f.attr in ("extend", "join"):
+                    ok.add(id(n.args[0]))
+                if isinstance(f, ast.Name) and f.id in ("repr", "tuple", "dict", "str") and self.is_builtin(f, f.id):
+                    ok.add(id(n.args[0]))
+            if isinstance(n, ast.Subscript) and isinstance(n.ctx, ast.Load) and isinstance(n.slice, ast.Slice) and isinstance(n.value, ast.Name):
+                ok.add(id(n.value))
+            if isinstance(n, ast.BinOp) and isinstance(n.op, ast.Add):
+                ok |= {id(x) for x in (n.left, n.right) if isinstance(x, ast.Name)}
+            if isinstance(n, ast.comprehension) and isinstance(n.iter, ast.Name):
+                ok.add(id(n.iter))
+        # the function ends with its last top-level statement: a reference that statement stores somewhere cannot be observed by
+        # this function any more (as for `return`)
+        last = self.fd.body[-1] if self.fd.body else None
+        if last is not None and not isinstance(last, (ast.For, ast.While, ast.If, ast.Try, ast.With)):
+            ok |= {id(m) for m in ast.walk(last) if isinstance(m, ast.Name)}
+        return ok
+
+    def t11_compare(self, op, pre, a, b, ind):
+        """`a == b` / `a != b` / `a in b` / `a not in b` where a `lark.Token` counts as the `str` it is"""
+        tok = self.t11_tok()
+        if isinstance(op, (ast.Eq, ast.NotEq)):
+            return pre, (f"(PyU.t11Eq {tok} {a} {b})" if isinstance(op, ast.Eq) else f"(!(PyU.t11Eq {tok} {a} {b}))")
+        t = self.fresh()
+        return pre + [f"{' ' * ind}let {t} ← PyU.t11Contains {tok} {b} {a}"], (t if isinstance(op, ast.In) else f"(!{t})")
+
+    def t11_attr(self, n: ast.Attribute, ind):
+        """self-mode: `self.a` read as a value (any listed attribute)"""
+        cfg = self.t11_self()
+        if cfg is None or not (isinstance(n.ctx, ast.Load) and isinstance(n.value, ast.Name) and n.value.id == cfg[0] and n.attr in cfg[1]):
+            return None
+        if cfg[0] not in self.declared:
+            raise self.bad(f"{cfg[0]} is not bound here")
+        t = self.fresh()
+        return [f"{' ' * ind}let {t} ← PyU.getAttr {lname(cfg[0])} {lean_string(n.attr)}"], t
+
+    def t11_call(self, n: ast.Call, entry, ind):
+        """calls of the T11 subset: (prelude, term) or None"""
+        tok = self.t11_tok()
+        if not tok:
+            return None
+        P = " " * ind
+        f = n.func
+        if entry is not None and entry[0] == "t11ddlist":
+            if n.keywords or len(n.args) != 1 or not self.is_builtin(n.args[0], "list"):
+                raise self.bad(f"{ast.unparse(n)[:50]}: only `collections.defaultdict(list)`")
+            return [], "PyU.t11DdNew"
+        if entry is not None and entry[0] == "cls" and self.dotted(f) in getattr(self.u, "t11_ctors", {}):
+            entry = ("t11cls", (entry[1], self.u.t11_ctors[self.dotted(f)]))      # a class that is also named in `isinstance`
+        if entry is not None and entry[0] == "t11cls":
+            term, fields = entry[1]
+            if n.keywords or len(n.args) != len(fields):
+                raise self.bad(f"{ast.unparse(f)} is registered with the positional arguments {fields}")
+            pre, args = self.exprs(n.args, ind)
+            return pre, f"(V.inst {term} [{', '.join(args)}])"
+        if n.keywords:
+            return None
+        cfg = self.t11_self()
+        if cfg is not None and isinstance(f, ast.Attribute) and isinstance(f.value, ast.Name) and f.value.id == cfg[0] and f.attr in cfg[2]:
+            # `self.m(args)`: the translated method, `self` threaded
+            me = cfg[0]
+            sg = self.u.sigs[cfg[2][f.attr]]
+            if getattr(sg, "t11_selfmode", None) is None or sg.asserts or getattr(sg, "stops", False):
+                raise self.bad(f"{f.attr} was not translated as a self-mode method")
+            if me not in self.declared or self.in_loop is not None and me not in self.in_loop:
+                raise self.bad(f"{me} is not bound here")
+            rest = sg.params[1:]
+            if len(n.args) > len(rest):
+                raise self.bad(f"too many arguments for {f.attr}")
+            pre, args = self.exprs(n.args, ind)
+            for pname, d in rest[len(args):]:
+                if d is None:
+                    raise self.bad(f"missing argument {pname} of {f.attr}")
+                args.append(d)
+            if sg.fuel:
+                self.needs_fuel = True
+            for e in sg.externs:
+                self.use_extern(e)
+            r, q = self.fresh(), self.fresh()
+            callt = " ".join([sg.name] + list(sg.externs) + (["fuel"] if sg.fuel else []) + [lname(me)] + args)
+            return pre + [f"{P}let {r} ← {callt}", f"{P}let {q} ← PyU.unpack2 {r}", f"{P}{lname(me)} := {q}.2"], f"{q}.1"
+        if isinstance(f, ast.Attribute) and f.attr == "pop" and isinstance(f.value, ast.Name) and f.value.id in self.mutable and not n.args:
+            v = f.value.id
+            if v not in self.declared:
+                raise self.bad(f"variable {v} may be used before it is assigned on this path")
+            r = self.fresh()
+            return [f"{P}let {r} ← PyU.t11Pop {lname(v)}", f"{P}{lname(v)} := {r}.2"], f"{r}.1"
+        if isinstance(f, ast.Attribute) and f.attr == "join" and len(n.args) == 1 and self.dotted(f) is None:
+            po, o = self.expr(f.value, ind)
+            pa, a = self.expr(n.args[0], ind)
+            t = self.fresh()
+            return po + pa + [f"{P}let {t} ← PyU.t11Join {tok} {o} {a}"], t
+        if self.is_builtin(f, "tuple") and len(n.args) == 1 and isinstance(n.args[0], ast.GeneratorExp):
+            g = n.args[0]
+            lc = ast.copy_location(ast.ListComp(elt=g.elt, generators=g.generators), g)
+            pa, a = self.listcomp(lc, ind)
+            t = self.fresh()
+            return pa + [f"{P}let {t} ← PyU.t11TupleOf {tok} {a}"], t
+        for name, op in (("tuple", f"PyU.t11TupleOf {tok}"), ("str", f"PyU.t11StrOf {tok}"), ("repr", f"PyU.t11ReprV {tok}"),
+                         ("dict", "PyU.t11DictOf")):
+            if self.is_builtin(f, name) and len(n.args) == 1:
+                pa, a = self.expr(n.args[0], ind)
+                t = self.fresh()
+                return pa + [f"{P}let {t} ← {op} {a}"], t
+        if self.is_builtin(f, "hash") and len(n.args) == 1 and "%hash" in self.u.registry:
+            name = self.u.registry["%hash"][2][0]      # `hash(x)`: an external function of the value
+            pa, a = self.expr(n.args[0], ind)
+            self.use_extern(name)
+            t = self.fresh()
+            return pa + [f"{P}let {t} ← {name} {a}"], t
+        return None
+
+    def t11_stmt(self, st, ind):
+        """statements of the T11 subset: lines or None"""
+        tok = self.t11_tok()
+        if not tok:
+            return None
+        P = " " * ind
+        cfg = self.t11_self()
+        if isinstance(st, ast.Expr) and isinstance(st.value, ast.Call):
+            c = st.value
+            what = self.t11_special_store(c)
+            if what is not None:
+                if what[-1] is None:
+                    raise self.bad("append with other than one argument")
+                if what[0] == "dd":
+                    _, d, key, arg = what
+                    if d not in self.declared:
+                        raise self.bad(f"variable {d} may be used before it is assigned on this path")
+                    pk, k = self.expr(key, ind)
+                    pv, v = self.expr(arg, ind)
+                    if pk or pv:
+                        # `d[k]` inserts the default before `e` is evaluated: one run-time operation is exact only when neither can raise
+                        raise self.bad(f"`{d}[k].append(e)` with a key / value that is not a plain variable or constant")
+                    r = self.fresh()
+                    return [f"{P}let {r} ← PyU.t11DdAppend {lname(d)} {k} {v}", f"{P}{lname(d)} := {r}"]
+                _, chain, arg = what
+                me = lname(cfg[0])
+                if cfg[0] not in self.declared or self.in_loop is not None and cfg[0] not in self.in_loop:
+                    raise self.bad(f"{cfg[0]} is not bound here")
+                out, cur, objs = [], me, []
+                for a in chain:            # the receiver `self.a[.b]` is evaluated before the argument
+                    t = self.fresh()
+                    out.append(f"{P}let {t} ← PyU.getAttr {cur} {lean_string(a)}")
+                    objs.append((cur, a))
+                    cur = t
+                pv, v = self.expr(arg, ind)
+                new = self.fresh()
+                out += pv + [f"{P}let {new} ← PyU.append {cur} {v}"]
+                for owner, a in reversed(objs):
+                    t = self.fresh()
+                    out.append(f"{P}let {t} ← PyU.setAttrObj {owner} {lean_string(a)} {new}")
+                    new = t
+                return out + [f"{P}{me} := {new}"]
+            f = c.func
+            if isinstance(f, ast.Attribute) and f.attr == "extend" and isinstance(f.value, ast.Name) and f.value.id in self.mutable:
+                if len(c.args) != 1 or c.keywords:
+                    raise self.bad("extend with other than one argument")
+                v = f.value.id
+                if v not in self.declared:
+                    raise self.bad(f"variable {v} may be used before it is assigned on this path")
+                p, t = self.expr(c.args[0], ind)
+                r = self.fresh()
+                return p + [f"{P}let {r} ← PyU.t11Extend {tok} {lname(v)} {t}", f"{P}{lname(v)} := {r}"]
+            return None
+        if cfg is None:
+            return None
+        tg = value = op = None
+        if isinstance(st, ast.Assign) and len(st.targets) == 1:
+            tg, value = st.targets[0], st.value
+        elif isinstance(st, ast.AnnAssign) and st.value is not None:
+            tg, value = st.target, st.value
+        elif isinstance(st, ast.AugAssign):
+            tg, value, op = st.target, st.value, st.op
+        if not (isinstance(tg, ast.Attribute) and isinstance(tg.value, ast.Name) and tg.value.id == cfg[0]):
+            return None
+        me = lname(cfg[0])
+        if tg.attr not in cfg[1]:
+            raise self.bad(f"assignment to {cfg[0]}.{tg.attr}, which is not a listed attribute")
+        if cfg[0] not in self.declared or self.in_loop is not None and cfg[0] not in self.in_loop:
+            raise self.bad(f"{cfg[0]} is not bound here")
+        out = []
+        if op is not None:
+            if type(op) not in BINOP:
+                raise self.bad(f"operator {type(op).__name__}")
+            old = self.fresh()
+            out.append(f"{P}let {old} ← PyU.getAttr {me} {lean_string(tg.attr)}")
+        p, t = self.expr(value, ind)
+        out += p
+        if op is not None:
+            new = self.fresh()
+            out.append(f"{P}let {new} ← PyU.{'iadd' if isinstance(op, ast.Add) else BINOP[type(op)]} {old} {t}")
+            t = new
+        r = self.fresh()
+        return out + [f"{P}let {r} ← PyU.setAttrObj {me} {lean_string(tg.attr)} {t}", f"{P}{me} := {r}"]
+
     def run(self):
         self.analyse()
         head = [f"  let mut {lname(p)} := {lname(p)}" for p in self.params if p in self.assigned]
@@ -2866,6 +4542,9 @@ class _Fn:
         if self.is_gen:
             head.append("  let mut ys0 := (V.list [])")
             self.declared.append(YIELDS)
+        if self.t18_ret_in_loop():
+            head.append("  let mut ret0 := PyU.t18NoRet")
+            self.declared.append(RET)
         body, term = self.block(self.fd.body, 2)
         if self.init is not None:
             cls_term, attrs = self.init
@@ -2878,6 +4557,8 @@ class _Fn:
         elif self.is_gen:
             if not term:
                 body.append(f"  return {self.result_term()}")
+        elif not term and self.t11_self() is not None:
+            body.append(f"  return {self.result_term('V.none')}")      # T11 self-mode: the end of the body is `return None`
         elif not term:
             raise self.bad("a path reaches the end of the function without return")
         return head + body
